@@ -72,208 +72,262 @@ func c22(c *engine.Ctx) {
 	c22MultiRules(c, p)
 }
 
+// All rules below are phrased over *facts that hold at a site* (polarity of the
+// dominating conditions, case labels, helper-boolean expansion) and over
+// *origins of values* (locals, helper parameters and helper results are
+// followed), so that extracting helpers, inverting conditions, renaming
+// locals or switching between if-chains and switches does not change a verdict.
+
+func c22Bool(b bool) string {
+	if b {
+		return "true"
+	}
+	return "false"
+}
+
 // ---- iterator direction / range plumbing ----
 
 func c22IterDir(c *engine.Ctx, p *engine.Prog) {
 	n := 0
 	for _, tc := range []struct {
 		name string
-		asc  string
-	}{{"Iterator", "true"}, {"ReverseIterator", "false"}} {
+		asc  bool
+	}{{"Iterator", true}, {"ReverseIterator", false}} {
 		f := c.MustFunc(c22CS + tc.name)
 		if f == nil {
 			continue
 		}
-		calls := f.CallsTo(c22CS + "iterator")
-		ok := len(calls) == 1 && len(f.Calls()) == 1
-		why := "must consist of exactly one call store.iterator(gctx, start, end, " + tc.asc + ")"
+		ds := sfDeepCallsTo(f, 2, c22CS+"iterator")
+		ok := len(ds) == 1
+		why := "must make exactly one call store.iterator(gctx, start, end, " + c22Bool(tc.asc) + ")"
 		if ok {
-			a := calls[0].Call.Args
-			ok = len(a) == 4 && sfIsParam(f, a[0], 0) && sfIsParam(f, a[1], 1) && sfIsParam(f, a[2], 2)
+			d := ds[0]
+			ok = len(d.site.Call.Args) == 4 && d.rootParam(0) == 0 && d.rootParam(1) == 1 && d.rootParam(2) == 2 && len(d.facts()) == 0
 			if ok {
-				id, isId := ast.Unparen(a[3]).(*ast.Ident)
-				ok = isId && id.Name == tc.asc && f.Info().Uses[id] == types.Universe.Lookup(tc.asc)
+				v, isC := sfConstBool(d.info(), d.arg(3))
+				ok = isC && v == tc.asc
 			}
 		}
 		n++
-		c.Check("iter-dir", c22CS+tc.name+" passes ascending="+tc.asc, f.Pos(), ok, why)
+		c.Check("iter-dir", c22CS+tc.name+" passes ascending="+c22Bool(tc.asc), f.Pos(), ok, why)
 	}
 	f := c.MustFunc(c22CS + "iterator")
 	if f == nil {
 		c.Floor("iter-dir", n, 9)
 		return
 	}
-	info := f.Info()
-	asc := paramObj(f, 3)
-	isAsc := func(e ast.Expr) bool { return engine.ObjOf(info, e) == asc }
-	g := f.Graph()
+	isAsc := func(cx *sfCtx, e ast.Expr) bool { return sfRootParam(cx, e) == 3 }
 	parentField := p.Field(c22Cache + ".cacheStore.parent")
-	var parentCalls []*engine.Site
-	for _, s := range f.Calls() {
-		if s.Call == nil {
-			continue
-		}
-		fld, m := sfMethodOnField(info, s.Call)
-		if fld == nil || fld != parentField || (m != "Iterator" && m != "ReverseIterator") {
-			continue
-		}
-		parentCalls = append(parentCalls, s)
+	fwd, rev := 0, 0
+	for _, d := range sfDeepFieldCalls(f, 3, parentField, "Iterator", "ReverseIterator") {
+		_, m := sfMethodOnField(d.info(), d.site.Call)
 		want := m == "Iterator"
-		ok := sfHolds(f, s, want, isAsc) && len(g.Gates(s)) == 1
-		a := s.Call.Args
-		argsOK := len(a) == 3 && sfIsParam(f, a[1], 1) && sfIsParam(f, a[2], 2)
+		if want {
+			fwd++
+		} else {
+			rev++
+		}
+		facts := d.facts()
+		ok := sfKnown(facts, want, isAsc) && !sfKnown(facts, !want, isAsc)
+		argsOK := len(d.site.Call.Args) == 3 && d.rootParam(1) == 1 && d.rootParam(2) == 2
 		n++
-		c.Check("iter-dir", c22CS+"iterator parent."+m+" iff ascending="+map[bool]string{true: "true", false: "false"}[want], s.Pos(), ok && argsOK,
-			"parent."+m+" must run exactly when ascending is "+map[bool]string{true: "true", false: "false"}[want]+" with (start, end) unchanged")
+		c.Check("iter-dir", c22CS+"iterator parent."+m+" iff ascending="+c22Bool(want), d.where(), ok && argsOK,
+			"parent."+m+" must run exactly when ascending is "+c22Bool(want)+", with (start, end) unchanged")
 	}
-	c.Check("iter-dir", c22CS+"iterator has both parent directions", f.Pos(), len(parentCalls) == 2, "expected one parent.Iterator and one parent.ReverseIterator call")
 	n++
-	di := f.CallsTo(c22CS + "dirtyItems")
-	nm := f.CallsTo(c22Cache + ".newMemIterator")
-	mg := f.CallsTo(c22Cache + ".newCacheMergeIterator")
+	c.Check("iter-dir", c22CS+"iterator has both parent directions", f.Pos(), fwd >= 1 && rev >= 1, "expected a parent.Iterator and a parent.ReverseIterator call")
+	di := sfDeepCallsTo(f, 2, c22CS+"dirtyItems")
+	nm := sfDeepCallsTo(f, 2, c22Cache+".newMemIterator")
+	mg := sfDeepCallsTo(f, 2, c22Cache+".newCacheMergeIterator")
 	if len(di) == 1 && len(nm) == 1 && len(mg) == 1 {
-		a := di[0].Call.Args
-		c.Check("iter-dir", c22CS+"iterator dirtyItems(start,end) before newMemIterator", di[0].Pos(),
-			len(a) == 2 && sfIsParam(f, a[0], 1) && sfIsParam(f, a[1], 2) && g.Dominates(di[0], nm[0]) && len(g.Gates(di[0])) == 0,
+		c.Check("iter-dir", c22CS+"iterator dirtyItems(start,end) before newMemIterator", di[0].where(),
+			len(di[0].site.Call.Args) == 2 && di[0].rootParam(0) == 1 && di[0].rootParam(1) == 2 && sfDomDS(di[0], nm[0]) && len(di[0].facts()) == 0,
 			"the dirty items of [start,end) must be merged into sortedCache, unconditionally, before the mem iterator copies it")
-		b := nm[0].Call.Args
 		sorted := p.Field(c22Cache + ".cacheStore.sortedCache")
-		c.Check("iter-dir", c22CS+"iterator newMemIterator(start,end,sortedCache,ascending)", nm[0].Pos(),
-			len(b) == 4 && sfIsParam(f, b[0], 1) && sfIsParam(f, b[1], 2) && sfFieldSel(info, b[2], sorted) && isAsc(b[3]),
+		b := nm[0].site.Call.Args
+		c.Check("iter-dir", c22CS+"iterator newMemIterator(start,end,sortedCache,ascending)", nm[0].where(),
+			len(b) == 4 && nm[0].rootParam(0) == 1 && nm[0].rootParam(1) == 2 && sfFieldSel(nm[0].info(), b[2], sorted) && nm[0].rootParam(3) == 3,
 			"mem iterator must receive the same range, the sorted cache and the same direction")
-		m := mg[0].Call.Args
-		fromParent := func(e ast.Expr) bool {
-			cl, ok := ast.Unparen(e).(*ast.CallExpr)
-			if !ok {
-				return false
-			}
-			fld, mm := sfMethodOnField(info, cl)
-			return fld == parentField && (mm == "Iterator" || mm == "ReverseIterator")
+		m := mg[0]
+		stopAt := func(cx *sfCtx, cl *ast.CallExpr) bool {
+			return sfCallee(cx.fn.Info(), cl) == c22Cache+".newMemIterator"
 		}
-		fromMem := func(e ast.Expr) bool {
-			_, ok := sfIsCallTo(info, e, c22Cache+".newMemIterator")
-			return ok
+		okM := len(m.site.Call.Args) == 3 && m.rootParam(2) == 3
+		if okM {
+			okM = sfAllLeafs(sfLeafs(m.ctx, m.arg(0), m.site, 4, stopAt), func(l sfLeaf) bool {
+				return l.e != nil && (sfFieldCallIs(l.ctx, l.e, parentField, "Iterator") || sfFieldCallIs(l.ctx, l.e, parentField, "ReverseIterator"))
+			}) && sfAllLeafs(sfLeafs(m.ctx, m.arg(1), m.site, 4, stopAt), func(l sfLeaf) bool {
+				if l.e == nil {
+					return false
+				}
+				_, isC := sfIsCallTo(l.ctx.fn.Info(), l.e, c22Cache+".newMemIterator")
+				return isC
+			})
 		}
-		c.Check("iter-dir", c22CS+"iterator newCacheMergeIterator(parent,cache,ascending)", mg[0].Pos(),
-			len(m) == 3 && sfDerives(f, m[0], fromParent, 2) && sfDerives(f, m[1], fromMem, 2) && isAsc(m[2]),
+		c.Check("iter-dir", c22CS+"iterator newCacheMergeIterator(parent,cache,ascending)", m.where(), okM,
 			"merge iterator must receive the parent iterator, the mem iterator and the same direction flag")
 		n += 3
 	} else {
-		c.Undecided("iter-dir", c22CS+"iterator", "expected exactly one dirtyItems, newMemIterator and newCacheMergeIterator call")
+		c.Undecided("iter-dir", c22CS+"iterator", "expected exactly one dirtyItems, newMemIterator and newCacheMergeIterator call (directly or through helpers)")
 	}
-	// dirtyItems: domain filter + value source + merge switch
+	// dirtyItems: domain filter + value source + sorted merge
 	if d := c.MustFunc(c22CS + "dirtyItems"); d != nil {
-		dinfo := d.Info()
 		unsorted := p.Field(c22Cache + ".cacheStore.unsortedCache")
-		found := 0
-		for _, s := range d.CallsTo("builtin.append") {
-			// append gated by IsKeyInDomain(key, start, end)
-			inDom := func(e ast.Expr) bool {
-				cl, ok := sfIsCallTo(dinfo, e, "tm2/pkg/db.IsKeyInDomain")
-				return ok && len(cl.Args) == 3 && sfIsParam(d, cl.Args[1], 0) && sfIsParam(d, cl.Args[2], 1)
-			}
-			found++
-			c.Check("iter-dir", c22CS+"dirtyItems append gated by IsKeyInDomain(start,end)", s.Pos(),
-				sfHolds(d, s, true, inDom) && len(d.Graph().Gates(s)) == 1, "exactly the unsorted keys inside [start,end) are moved to the sorted list")
-			// the KVPair value comes from store.cache[key].value
-			valOK := false
-			ast.Inspect(s.Call, func(n ast.Node) bool {
-				if kv, ok := n.(*ast.KeyValueExpr); ok {
-					if id, ok := kv.Key.(*ast.Ident); ok && id.Name == "Value" {
-						if fld := sfSelField(dinfo, kv.Value); fld != nil && fld.Name() == "value" {
-							valOK = true
+		valF := p.Field(c22Cache + ".cValue.value")
+		ctxs := sfCtxs(sfRoot(d), 3, nil)
+		items, rangeOK := 0, false
+		var sws []struct {
+			cx *sfCtx
+			sw *ast.SwitchStmt
+		}
+		for _, cx := range ctxs {
+			info := cx.fn.Info()
+			engine.InspectBody(cx.fn, func(x ast.Node) {
+				switch nd := x.(type) {
+				case *ast.RangeStmt:
+					if sfFieldSel(info, nd.X, unsorted) {
+						rangeOK = true
+					}
+				case *ast.CompositeLit:
+					t := info.TypeOf(nd)
+					if t == nil || engine.TypeName(t) != "tm2/pkg/std.KVPair" {
+						return
+					}
+					st := cx.fn.SiteOf(nd)
+					if st == nil {
+						return
+					}
+					items++
+					facts := sfFactsAt(cx, st)
+					inDom := sfKnown(facts, true, func(fc *sfCtx, e ast.Expr) bool {
+						cl, ok := sfIsCallTo(fc.fn.Info(), e, "tm2/pkg/db.IsKeyInDomain")
+						return ok && len(cl.Args) == 3 && sfRootParam(fc, cl.Args[1]) == 0 && sfRootParam(fc, cl.Args[2]) == 1
+					})
+					n++
+					c.Check("iter-dir", c22CS+"dirtyItems item created only for keys in [start,end)", nd.Pos(), inDom, "exactly the unsorted keys inside [start,end) are moved to the sorted list")
+					valOK := false
+					for _, el := range nd.Elts {
+						kv, isKV := el.(*ast.KeyValueExpr)
+						if !isKV {
+							continue
+						}
+						if id, isId := kv.Key.(*ast.Ident); isId && id.Name == "Value" {
+							valOK = sfAllLeafs(sfLeafs(cx, kv.Value, st, 3, nil), func(l sfLeaf) bool {
+								return l.e != nil && sfFieldSel(l.ctx.fn.Info(), l.e, valF)
+							})
+						}
+					}
+					n++
+					c.Check("iter-dir", c22CS+"dirtyItems item value is the cached value", nd.Pos(), valOK, "KVPair.Value must be the cValue.value of the key (nil marks a delete)")
+				case *ast.SwitchStmt:
+					if nd.Tag == nil {
+						return
+					}
+					st := cx.fn.SiteOf(nd.Tag)
+					isCmp := sfAllLeafs(sfLeafs(cx, nd.Tag, st, 3, nil), func(l sfLeaf) bool {
+						if l.e == nil {
+							return false
+						}
+						_, ok := sfIsCallTo(l.ctx.fn.Info(), l.e, "bytes.Compare")
+						return ok
+					})
+					if isCmp {
+						sws = append(sws, struct {
+							cx *sfCtx
+							sw *ast.SwitchStmt
+						}{cx, nd})
+					}
+				}
+			})
+		}
+		n++
+		c.Check("iter-dir", c22CS+"dirtyItems ranges over unsortedCache", d.Pos(), rangeOK && items >= 1, "")
+		if len(sws) != 1 {
+			c.Undecided("iter-dir", c22CS+"dirtyItems merge switch", "sorted-merge switch on bytes.Compare not found in dirtyItems or its helpers")
+		} else {
+			cx, sw := sws[0].cx, sws[0].sw
+			info := cx.fn.Info()
+			for _, tc := range []struct {
+				k      int64
+				insert bool
+				adv    bool
+			}{{-1, true, false}, {1, false, true}, {0, false, true}} {
+				var cc *ast.CaseClause
+				for _, cl := range sw.Body.List {
+					for _, e := range cl.(*ast.CaseClause).List {
+						if v, isC := sfConstInt(info, e); isC && v == tc.k {
+							cc = cl.(*ast.CaseClause)
 						}
 					}
 				}
-				return true
-			})
-			c.Check("iter-dir", c22CS+"dirtyItems item value is the cached value", s.Pos(), valOK, "KVPair.Value must be the cValue.value of the key (nil marks a delete)")
-		}
-		n += 2 * found
-		// range over unsortedCache
-		rangeOK := false
-		engine.InspectBody(d, func(x ast.Node) {
-			if rs, ok := x.(*ast.RangeStmt); ok && sfFieldSel(dinfo, rs.X, unsorted) {
-				rangeOK = true
-			}
-		})
-		c.Check("iter-dir", c22CS+"dirtyItems ranges over unsortedCache", d.Pos(), rangeOK && found == 1, "")
-		n++
-		// merge switch on bytes.Compare(uitem.Key, sitem.Key)
-		sws := sfSwitchOn(d, func(e ast.Expr) bool { _, ok := sfIsCallTo(dinfo, e, "bytes.Compare"); return ok })
-		if len(sws) != 1 {
-			c.Undecided("iter-dir", c22CS+"dirtyItems merge switch", "switch on bytes.Compare not found")
-		} else {
-			for _, tc := range []struct {
-				lit  string
-				want string // list method that must be called
-				adv  bool   // e = e.Next() present
-			}{{"-1", "InsertBefore", false}, {"1", "", true}, {"0", "", true}} {
-				cc := sfCaseOf(sws[0], tc.lit)
 				ok := cc != nil
 				if ok {
-					var calls []string
+					hasIns, hasNext, repl := false, false, false
 					for _, st := range cc.Body {
 						ast.Inspect(st, func(x ast.Node) bool {
-							if cl, ok := x.(*ast.CallExpr); ok {
-								calls = append(calls, sfCallee(dinfo, cl))
+							if cl, isC := x.(*ast.CallExpr); isC {
+								switch sfCallee(info, cl) {
+								case "container/list.(*List).InsertBefore":
+									hasIns = true
+								case "container/list.(*Element).Next":
+									hasNext = true
+								}
+							}
+							if as, isAs := x.(*ast.AssignStmt); isAs && len(as.Lhs) == 1 {
+								if fld := sfSelField(info, as.Lhs[0]); fld != nil && fld.Name() == "Value" && fld.Pkg() != nil && fld.Pkg().Path() == "container/list" {
+									repl = true
+								}
 							}
 							return true
 						})
 					}
-					hasIns, hasNext := false, false
-					for _, nm := range calls {
-						if nm == "container/list.(*List).InsertBefore" {
-							hasIns = true
-						}
-						if nm == "container/list.(*Element).Next" {
-							hasNext = true
-						}
-					}
-					ok = hasIns == (tc.want == "InsertBefore") && hasNext == tc.adv
-					if tc.lit == "0" {
-						// replaces the element's value
-						repl := false
-						for _, st := range cc.Body {
-							if as, isAs := st.(*ast.AssignStmt); isAs && len(as.Lhs) == 1 {
-								if se, isSel := as.Lhs[0].(*ast.SelectorExpr); isSel && se.Sel.Name == "Value" {
-									repl = true
-								}
-							}
-						}
-						ok = ok && repl
-					}
+					ok = hasIns == tc.insert && hasNext == tc.adv && (tc.k != 0 || repl)
 				}
 				n++
-				c.Check("iter-dir", c22CS+"dirtyItems merge case "+tc.lit, sws[0].Pos(), ok, "sorted-merge step: -1 inserts before, 1 advances, 0 replaces the element value and advances")
+				c.Check("iter-dir", c22CS+"dirtyItems merge case "+c22Itoa(tc.k), sw.Pos(), ok, "sorted-merge step: -1 inserts before, 1 advances, 0 replaces the element value and advances")
 			}
-			pb := d.CallsTo("container/list.(*List).PushBack")
-			c.Check("iter-dir", c22CS+"dirtyItems appends the remaining items", d.Pos(), len(pb) == 1 && len(d.Graph().Gates(pb[0])) == 0 || (len(pb) == 1 && c22OnlyLoopGates(d, pb[0])), "items greater than every sorted element are pushed back")
-			n++
-			ss := d.CallsTo("sort.Slice")
-			ok := len(ss) == 1
-			if ok {
-				for _, s := range d.CallsTo("container/list.(*List).InsertBefore", "container/list.(*List).PushBack") {
-					ok = ok && d.Graph().Dominates(ss[0], s)
+			pb := sfDeepCallsTo(d, 3, "container/list.(*List).PushBack")
+			okPB := len(pb) >= 1
+			for _, x := range pb {
+				if len(x.facts()) != 0 && !c22OnlyLoopGates(x.ctx.fn, x.site) {
+					okPB = false
 				}
 			}
-			c.Check("iter-dir", c22CS+"dirtyItems sorts before merging", d.Pos(), ok, "sort.Slice must dominate the list insertions")
 			n++
+			c.Check("iter-dir", c22CS+"dirtyItems appends the remaining items", d.Pos(), okPB, "items greater than every sorted element are pushed back")
+			ss := sfDeepCallsTo(d, 3, "sort.Slice", "sort.Sort", "slices.SortFunc", "sort.SliceStable")
+			ok := len(ss) >= 1
+			if ok {
+				for _, s := range sfDeepCallsTo(d, 3, "container/list.(*List).InsertBefore", "container/list.(*List).PushBack") {
+					ok = ok && sfDomDS(ss[0], s)
+				}
+			}
+			n++
+			c.Check("iter-dir", c22CS+"dirtyItems sorts before merging", d.Pos(), ok, "the sort must dominate the list insertions")
 		}
 	}
 	c.Floor("iter-dir", n, 16)
 }
 
-// c22OnlyLoopGates: every gate of s is a range/for loop header (no data condition).
+func c22Itoa(k int64) string {
+	switch k {
+	case -1:
+		return "-1"
+	case 0:
+		return "0"
+	case 1:
+		return "1"
+	}
+	return "?"
+}
+
+// c22OnlyLoopGates: every gate of s is a for-loop header (no data condition).
 func c22OnlyLoopGates(f *engine.Fn, s *engine.Site) bool {
 	for _, g := range f.Graph().Gates(s) {
 		isLoop := false
 		engine.InspectBody(f, func(n ast.Node) {
-			switch l := n.(type) {
-			case *ast.ForStmt:
-				if l.Cond == g.Cond {
-					isLoop = true
-				}
+			if l, ok := n.(*ast.ForStmt); ok && l.Cond == g.Cond {
+				isLoop = true
 			}
 		})
 		if !isLoop {
@@ -283,261 +337,447 @@ func c22OnlyLoopGates(f *engine.Fn, s *engine.Site) bool {
 	return true
 }
 
-// ---- merge iterator ----
+// ---- merge iterator: situation tables ----
+
+// The five situations the merge iterator distinguishes.
+const (
+	c22PI = "parent-exhausted"
+	c22CI = "cache-exhausted"
+	c22LT = "parent<cache"
+	c22EQ = "parent==cache"
+	c22GT = "parent>cache"
+)
+
+var c22AllSit = []string{c22PI, c22CI, c22LT, c22EQ, c22GT}
+
+type c22MergeEnv struct {
+	parentF, cacheF *types.Var
+}
+
+// compareSign: e originates from iter.compare(parentKey, cacheKey) (+1) or with swapped operands (-1); 0: not such a call.
+func (m c22MergeEnv) compareSign(cx *sfCtx, e ast.Expr) int {
+	stopAt := func(c *sfCtx, cl *ast.CallExpr) bool { return sfCallee(c.fn.Info(), cl) == c22MI+"compare" }
+	sign := 0
+	ok := sfAllLeafs(sfLeafs(cx, e, nil, 4, stopAt), func(l sfLeaf) bool {
+		if l.e == nil {
+			return false
+		}
+		cl, isC := sfIsCallTo(l.ctx.fn.Info(), l.e, c22MI+"compare")
+		if !isC || len(cl.Args) != 2 {
+			return false
+		}
+		from := func(a ast.Expr, fld *types.Var) bool {
+			return sfAllLeafs(sfLeafs(l.ctx, a, nil, 4, nil), func(k sfLeaf) bool { return k.e != nil && sfFieldCallIs(k.ctx, k.e, fld, "Key") })
+		}
+		s := 0
+		switch {
+		case from(cl.Args[0], m.parentF) && from(cl.Args[1], m.cacheF):
+			s = 1
+		case from(cl.Args[0], m.cacheF) && from(cl.Args[1], m.parentF):
+			s = -1
+		default:
+			return false
+		}
+		if sign != 0 && sign != s {
+			return false
+		}
+		sign = s
+		return true
+	})
+	if !ok {
+		return 0
+	}
+	return sign
+}
+
+// situations returns the set of situations compatible with the facts.
+func (m c22MergeEnv) situations(facts []sfFact) map[string]bool {
+	T := map[string]bool{}
+	for _, s := range c22AllSit {
+		T[s] = true
+	}
+	valid := func(fld *types.Var) func(*sfCtx, ast.Expr) bool {
+		return func(cx *sfCtx, e ast.Expr) bool { return sfFieldCallIs(cx, e, fld, "Valid") }
+	}
+	if sfKnown(facts, false, valid(m.parentF)) {
+		for _, s := range c22AllSit {
+			if s != c22PI {
+				delete(T, s)
+			}
+		}
+	}
+	if sfKnown(facts, true, valid(m.parentF)) {
+		delete(T, c22PI)
+	}
+	if sfKnown(facts, false, valid(m.cacheF)) {
+		delete(T, c22LT)
+		delete(T, c22EQ)
+		delete(T, c22GT)
+	}
+	if sfKnown(facts, true, valid(m.cacheF)) {
+		delete(T, c22CI)
+	}
+	for _, f := range facts {
+		a, b, op, ok := sfCmp(f.e)
+		if !ok {
+			continue
+		}
+		info := f.ctx.fn.Info()
+		k, isK := sfConstInt(info, b)
+		x := a
+		if !isK {
+			if k2, isK2 := sfConstInt(info, a); isK2 {
+				k, isK, x, op = k2, true, b, engine.Flip(op)
+			}
+		}
+		if !isK {
+			continue
+		}
+		sign := m.compareSign(f.ctx, x)
+		if sign == 0 {
+			continue
+		}
+		for v, s := range map[int64]string{-1: c22LT, 0: c22EQ, 1: c22GT} {
+			cv := int64(sign) * v
+			holds := false
+			switch op {
+			case token.EQL:
+				holds = cv == k
+			case token.NEQ:
+				holds = cv != k
+			case token.LSS:
+				holds = cv < k
+			case token.LEQ:
+				holds = cv <= k
+			case token.GTR:
+				holds = cv > k
+			case token.GEQ:
+				holds = cv >= k
+			}
+			if holds != f.val {
+				delete(T, s)
+			}
+		}
+	}
+	return T
+}
+
+// cacheIsDelete: +1 the current cache value is known nil, -1 known non-nil, 0 unknown.
+func (m c22MergeEnv) cacheIsDelete(facts []sfFact) int {
+	isVal := func(cx *sfCtx, a ast.Expr) bool {
+		return sfAllLeafs(sfLeafs(cx, a, nil, 4, nil), func(l sfLeaf) bool { return l.e != nil && sfFieldCallIs(l.ctx, l.e, m.cacheF, "Value") })
+	}
+	cmpNil := func(op token.Token) func(*sfCtx, ast.Expr) bool {
+		return func(cx *sfCtx, e ast.Expr) bool {
+			a, b, o, ok := sfCmp(e)
+			return ok && o == op && isNil(b) && isVal(cx, a)
+		}
+	}
+	switch {
+	case sfKnown(facts, true, cmpNil(token.EQL)) || sfKnown(facts, false, cmpNil(token.NEQ)):
+		return 1
+	case sfKnown(facts, false, cmpNil(token.EQL)) || sfKnown(facts, true, cmpNil(token.NEQ)):
+		return -1
+	}
+	return 0
+}
+
+func c22SitString(T map[string]bool) string {
+	var xs []string
+	for _, s := range c22AllSit {
+		if T[s] {
+			xs = append(xs, s)
+		}
+	}
+	return "{" + strings.Join(xs, ", ") + "}"
+}
+
+func c22Subset(T map[string]bool, allowed ...string) bool {
+	if len(T) == 0 {
+		return false
+	}
+	for s := range T {
+		in := false
+		for _, a := range allowed {
+			if a == s {
+				in = true
+			}
+		}
+		if !in {
+			return false
+		}
+	}
+	return true
+}
 
 func c22Merge(c *engine.Ctx, p *engine.Prog) {
 	n := 0
-	parentF := p.Field(c22Cache + ".cacheMergeIterator.parent")
-	cacheF := p.Field(c22Cache + ".cacheMergeIterator.cache")
-	if parentF == nil || cacheF == nil {
+	env := c22MergeEnv{p.Field(c22Cache + ".cacheMergeIterator.parent"), p.Field(c22Cache + ".cacheMergeIterator.cache")}
+	if env.parentF == nil || env.cacheF == nil {
 		c.Undecided("merge-case", "cacheMergeIterator fields", "parent/cache fields not found")
 		return
 	}
-	type caseWant struct {
-		lit   string
-		calls []string // exact set of parent./cache./self. calls in the clause
+	// protocol methods are analysed on their own and never entered as "helpers"
+	proto := map[string]bool{}
+	for _, m := range []string{"Next", "Key", "Value", "Valid", "skipUntilExistsOrInvalid", "skipCacheDeletes", "assertValid", "compare", "Domain", "Close", "Error"} {
+		proto[c22MI+m] = true
 	}
-	tables := map[string][]caseWant{
-		"Next":                     {{"-1", []string{"parent.Next"}}, {"0", []string{"cache.Next", "parent.Next"}}, {"1", []string{"cache.Next"}}},
-		"Value":                    {{"-1", []string{"parent.Value"}}, {"0", []string{"cache.Value"}}, {"1", []string{"cache.Value"}}},
-		"skipUntilExistsOrInvalid": {{"-1", nil}, {"0", []string{"cache.Next", "cache.Value", "parent.Next"}}, {"1", []string{"cache.Value", "self.skipCacheDeletes"}}},
+	stop := func(name string) bool { return proto[name] }
+	fieldCalls := func(f *engine.Fn, fld *types.Var, method string) []sfDS {
+		return sfDeepCalls(f, 3, stop, func(cx *sfCtx, s *engine.Site) bool { return sfFieldCallIs(cx, s.Call, fld, method) })
 	}
-	for _, name := range []string{"Next", "Key", "Value", "skipUntilExistsOrInvalid"} {
-		f := c.MustFunc(c22MI + name)
+	// rule: every call in `sites` happens only in `allowed` situations (plus extra), and each `required` situation has one
+	table := func(fn string, what string, sites []sfDS, allowed, required []string, extra func(d sfDS, T map[string]bool, facts []sfFact) (bool, string)) {
+		covered := map[string]bool{}
+		for _, d := range sites {
+			facts := d.facts()
+			T := env.situations(facts)
+			ok, why := c22Subset(T, allowed...), what+" runs in "+c22SitString(T)+", allowed only in {"+strings.Join(allowed, ", ")+"}"
+			if ok && extra != nil {
+				ok, why = extra(d, T, facts)
+			}
+			if ok {
+				for s := range T {
+					covered[s] = true
+				}
+			}
+			n++
+			c.Check("merge-case", c22MI+fn+" "+what+" situation", d.where(), ok, why)
+		}
+		var missing []string
+		for _, r := range required {
+			if !covered[r] {
+				missing = append(missing, r)
+			}
+		}
+		n++
+		c.Check("merge-case", c22MI+fn+" "+what+" coverage", token.NoPos, len(missing) == 0, what+" is missing when "+strings.Join(missing, ", "))
+	}
+	if f := c.MustFunc(c22MI + "Next"); f != nil {
+		table("Next", "parent.Next", fieldCalls(f, env.parentF, "Next"), []string{c22CI, c22LT, c22EQ}, []string{c22CI, c22LT, c22EQ}, nil)
+		table("Next", "cache.Next", fieldCalls(f, env.cacheF, "Next"), []string{c22PI, c22EQ, c22GT}, []string{c22PI, c22EQ, c22GT}, nil)
+	}
+	// Key / Value: origin of every returned value
+	for _, tc := range []struct {
+		fn, method           string
+		pAllowed, cAllowed   []string
+		pRequired, cRequired []string
+	}{
+		{"Key", "Key", []string{c22CI, c22LT, c22EQ}, []string{c22PI, c22EQ, c22GT}, []string{c22CI, c22LT}, []string{c22PI, c22GT}},
+		{"Value", "Value", []string{c22CI, c22LT}, []string{c22PI, c22EQ, c22GT}, []string{c22CI, c22LT}, []string{c22PI, c22EQ, c22GT}},
+	} {
+		f := c.MustFunc(c22MI + tc.fn)
 		if f == nil {
 			continue
 		}
-		info := f.Info()
-		keyFrom := func(fld *types.Var) func(ast.Expr) bool {
-			return func(e ast.Expr) bool {
-				cl, ok := ast.Unparen(e).(*ast.CallExpr)
-				if !ok {
+		root := sfRoot(f)
+		covP, covC := map[string]bool{}, map[string]bool{}
+		rets := 0
+		for _, r := range sfReturns(f) {
+			st := f.SiteOf(r)
+			if st == nil || len(r.Results) != 1 {
+				continue
+			}
+			base := sfFactsAt(root, st)
+			for _, l := range sfLeafs(root, r.Results[0], st, 5, func(cx *sfCtx, cl *ast.CallExpr) bool { return proto[sfCallee(cx.fn.Info(), cl)] }) {
+				rets++
+				facts := append(append([]sfFact{}, base...), l.facts...)
+				T := env.situations(facts)
+				ok, why := false, "returned value `"+c22Expr(l.e)+"` is neither parent."+tc.method+"() nor cache."+tc.method+"()"
+				switch {
+				case l.e != nil && sfFieldCallIs(l.ctx, l.e, env.parentF, tc.method):
+					ok, why = c22Subset(T, tc.pAllowed...), "parent."+tc.method+"() returned in "+c22SitString(T)
+					if ok {
+						for s := range T {
+							covP[s] = true
+						}
+					}
+				case l.e != nil && sfFieldCallIs(l.ctx, l.e, env.cacheF, tc.method):
+					ok, why = c22Subset(T, tc.cAllowed...), "cache."+tc.method+"() returned in "+c22SitString(T)+" (the cache must shadow the parent only on ties / when it is first)"
+					if ok {
+						for s := range T {
+							covC[s] = true
+						}
+					}
+				}
+				n++
+				c.Check("merge-case", c22MI+tc.fn+" returned "+tc.method+" origin", r.Pos(), ok, why)
+			}
+		}
+		var missing []string
+		for _, s := range tc.pRequired {
+			if !covP[s] {
+				missing = append(missing, "parent/"+s)
+			}
+		}
+		for _, s := range tc.cRequired {
+			if !covC[s] {
+				missing = append(missing, "cache/"+s)
+			}
+		}
+		if tc.fn == "Key" && !covP[c22EQ] && !covC[c22EQ] {
+			missing = append(missing, "either/"+c22EQ)
+		}
+		n++
+		c.Check("merge-case", c22MI+tc.fn+" coverage", f.Pos(), len(missing) == 0 && rets >= 1, "no return for "+strings.Join(missing, ", "))
+	}
+	if f := c.MustFunc(c22MI + "skipUntilExistsOrInvalid"); f != nil {
+		needDelete := func(d sfDS, T map[string]bool, facts []sfFact) (bool, string) {
+			if c22Subset(T, c22PI) {
+				return true, ""
+			}
+			return env.cacheIsDelete(facts) == 1, "items may be skipped only when the cache value is nil (a delete marker)"
+		}
+		table("skipUntilExistsOrInvalid", "parent.Next", fieldCalls(f, env.parentF, "Next"), []string{c22EQ}, []string{c22EQ}, needDelete)
+		table("skipUntilExistsOrInvalid", "cache.Next", fieldCalls(f, env.cacheF, "Next"), []string{c22EQ}, []string{c22EQ}, needDelete)
+		skips := sfDeepCalls(f, 3, stop, func(cx *sfCtx, s *engine.Site) bool { return s.CalleeName() == c22MI+"skipCacheDeletes" })
+		table("skipUntilExistsOrInvalid", "skipCacheDeletes", skips, []string{c22PI, c22GT}, []string{c22PI, c22GT}, func(d sfDS, T map[string]bool, facts []sfFact) (bool, string) {
+			if ok, why := needDelete(d, T, facts); !ok {
+				return ok, why
+			}
+			a := d.arg(0)
+			if c22Subset(T, c22PI) {
+				return sfAllLeafs(sfLeafs(d.ctx, a, d.site, 3, nil), func(l sfLeaf) bool { return l.e == nil || isNil(l.e) }), "with the parent exhausted all cache deletes are skipped (until == nil)"
+			}
+			return sfAllLeafs(sfLeafs(d.ctx, a, d.site, 4, nil), func(l sfLeaf) bool { return l.e != nil && sfFieldCallIs(l.ctx, l.e, env.parentF, "Key") }),
+				"cache deletes before the parent key are skipped up to the parent key"
+		})
+		// returns
+		root := sfRoot(f)
+		rets := 0
+		for _, r := range sfReturns(f) {
+			st := f.SiteOf(r)
+			if st == nil || len(r.Results) != 1 {
+				continue
+			}
+			rets++
+			facts := sfFactsAt(root, st)
+			T := env.situations(facts)
+			ok, why := false, ""
+			if v, isC := sfConstBool(f.Info(), r.Results[0]); isC && v {
+				switch {
+				case c22Subset(T, c22CI, c22LT):
+					ok = true
+				case c22Subset(T, c22EQ, c22GT):
+					ok, why = env.cacheIsDelete(facts) == -1, "the cache item may be reported as existing only when its value is non-nil"
+				default:
+					why = "`return true` in " + c22SitString(T)
+				}
+			} else if sfFieldCallIs(root, r.Results[0], env.cacheF, "Valid") {
+				ok, why = c22Subset(T, c22PI), "`return cache.Valid()` in "+c22SitString(T)
+			} else {
+				why = "unrecognised return value"
+			}
+			n++
+			c.Check("merge-case", c22MI+"skipUntilExistsOrInvalid return", r.Pos(), ok, why)
+		}
+		n++
+		c.Check("merge-case", c22MI+"skipUntilExistsOrInvalid has a return per situation", f.Pos(), rets >= 3, "")
+	}
+	// skipCacheDeletes: what holds when the cache is advanced
+	if f := c.MustFunc(c22MI + "skipCacheDeletes"); f != nil {
+		adv := fieldCalls(f, env.cacheF, "Next")
+		ok := len(adv) >= 1
+		for _, d := range adv {
+			facts := d.facts()
+			valid := sfKnown(facts, true, func(cx *sfCtx, e ast.Expr) bool { return sfFieldCallIs(cx, e, env.cacheF, "Valid") })
+			bound := false
+			cmpUntil := func(cx *sfCtx, e ast.Expr, op token.Token) bool {
+				a, b, o, isC := sfCmp(e)
+				if !isC || o != op {
 					return false
 				}
-				ff, m := sfMethodOnField(info, cl)
-				return ff == fld && m == "Key"
+				if k, isK := sfConstInt(cx.fn.Info(), b); !isK || k != 0 {
+					return false
+				}
+				cl, isCall := sfIsCallTo(cx.fn.Info(), a, c22MI+"compare")
+				return isCall && len(cl.Args) == 2 && sfRootParam(cx, cl.Args[1]) == 0 &&
+					sfAllLeafs(sfLeafs(cx, cl.Args[0], nil, 3, nil), func(l sfLeaf) bool { return l.e != nil && sfFieldCallIs(l.ctx, l.e, env.cacheF, "Key") })
 			}
-		}
-		isCmp := func(e ast.Expr) bool {
-			cl, ok := sfIsCallTo(info, e, c22MI+"compare")
-			return ok && len(cl.Args) == 2 && sfDerives(f, cl.Args[0], keyFrom(parentF), 2) && sfDerives(f, cl.Args[1], keyFrom(cacheF), 2)
-		}
-		sws := sfSwitchOn(f, isCmp)
-		if len(sws) != 1 {
-			c.Undecided("merge-case", c22MI+name, "switch on iter.compare(parent key, cache key) not found (argument order matters)")
-			continue
-		}
-		sw := sws[0]
-		if name == "Key" {
-			for _, tc := range []struct {
-				lit string
-				fld []*types.Var
-			}{{"-1", []*types.Var{parentF}}, {"0", []*types.Var{parentF, cacheF}}, {"1", []*types.Var{cacheF}}} {
-				cc := sfCaseOf(sw, tc.lit)
-				ok := cc != nil && len(cc.Body) == 1
-				if ok {
-					r, isR := cc.Body[0].(*ast.ReturnStmt)
-					ok = isR && len(r.Results) == 1
-					if ok {
-						hit := false
-						for _, fl := range tc.fld {
-							if sfDerives(f, r.Results[0], keyFrom(fl), 2) {
-								hit = true
-							}
-						}
-						ok = hit
+			untilNil := func(cx *sfCtx, e ast.Expr, op token.Token) bool {
+				a, b, o, isC := sfCmp(e)
+				return isC && o == op && isNil(b) && sfRootParam(cx, a) == 0
+			}
+			for _, ft := range facts {
+				b, isB := ast.Unparen(ft.e).(*ast.BinaryExpr)
+				if !isB {
+					continue
+				}
+				if ft.val && b.Op == token.LOR {
+					dj := engine.Conjuncts(b, token.LOR)
+					if len(dj) == 2 && ((untilNil(ft.ctx, dj[0], token.EQL) && cmpUntil(ft.ctx, dj[1], token.LSS)) || (untilNil(ft.ctx, dj[1], token.EQL) && cmpUntil(ft.ctx, dj[0], token.LSS))) {
+						bound = true
 					}
 				}
-				n++
-				c.Check("merge-case", c22MI+"Key case "+tc.lit, sw.Pos(), ok, "Key must return the smaller key in iteration order (-1: parent, 1: cache, 0: either)")
-			}
-		} else {
-			for _, tc := range tables[name] {
-				cc := sfCaseOf(sw, tc.lit)
-				var got []string
-				if cc != nil {
-					for _, st := range cc.Body {
-						got = append(got, sfFieldMethodCalls(f, st)...)
-					}
-					got = sfSorted(got...)
-					got = c22Uniq(got)
-				}
-				n++
-				c.Check("merge-case", c22MI+name+" case "+tc.lit, sw.Pos(), cc != nil && sfEq(got, sfSorted(tc.calls...)),
-					"calls in this case must be exactly {"+join(tc.calls)+"}, found {"+join(got)+"}")
-			}
-		}
-		if name == "skipUntilExistsOrInvalid" {
-			// in case 0 the parent/cache advance only when the cache value is nil (a delete); in case 1 the skip likewise
-			for _, lit := range []string{"0", "1"} {
-				cc := sfCaseOf(sw, lit)
-				ok := cc != nil
-				if ok {
-					for _, s := range f.Calls() {
-						if !sfWithin(cc, s.Node) || s.Call == nil {
-							continue
-						}
-						fld, m := sfMethodOnField(info, s.Call)
-						isAdv := (fld != nil && m == "Next") || strings.HasSuffix(s.CalleeName(), ".skipCacheDeletes")
-						if !isAdv {
-							continue
-						}
-						isNilVal := func(e ast.Expr) bool {
-							a, b, op, isC := sfCmp(e)
-							if !isC || op != token.EQL || !isNil(b) {
-								return false
-							}
-							return sfDerives(f, a, func(x ast.Expr) bool {
-								cl, ok := ast.Unparen(x).(*ast.CallExpr)
-								if !ok {
-									return false
-								}
-								ff, mm := sfMethodOnField(info, cl)
-								return ff == cacheF && mm == "Value"
-							}, 2)
-						}
-						if !sfHolds(f, s, true, isNilVal) {
-							ok = false
-						}
+				if !ft.val && b.Op == token.LAND {
+					cj := engine.Conjuncts(b, token.LAND)
+					if len(cj) == 2 && ((untilNil(ft.ctx, cj[0], token.NEQ) && cmpUntil(ft.ctx, cj[1], token.GEQ)) || (untilNil(ft.ctx, cj[1], token.NEQ) && cmpUntil(ft.ctx, cj[0], token.GEQ))) {
+						bound = true
 					}
 				}
-				n++
-				c.Check("merge-case", c22MI+"skipUntilExistsOrInvalid case "+lit+" skips only deletes", sw.Pos(), ok, "items are skipped only when the cache value is nil (a delete marker)")
+			}
+			if !(valid && env.cacheIsDelete(facts) == 1 && bound) {
+				ok = false
 			}
 		}
-		if name != "skipUntilExistsOrInvalid" {
-			// pre-switch: parent invalid -> cache only; cache invalid -> parent only
-			for _, tc := range []struct {
-				inval, use *types.Var
-			}{{parentF, cacheF}, {cacheF, parentF}} {
-				ok := false
-				engine.InspectBody(f, func(x ast.Node) {
-					is, isIf := x.(*ast.IfStmt)
-					if !isIf || sfWithin(sw, is) {
-						return
-					}
-					u, isU := ast.Unparen(is.Cond).(*ast.UnaryExpr)
-					if !isU || u.Op != token.NOT {
-						return
-					}
-					cl, isC := ast.Unparen(u.X).(*ast.CallExpr)
-					if !isC {
-						return
-					}
-					fld, m := sfMethodOnField(info, cl)
-					if fld != tc.inval || m != "Valid" {
-						return
-					}
-					calls := sfFieldMethodCalls(f, is.Body)
-					good := len(calls) > 0
-					for _, cn := range calls {
-						if !strings.HasPrefix(cn, tc.use.Name()+".") {
-							good = false
-						}
-					}
-					if good {
-						ok = true
-					}
-				})
-				n++
-				c.Check("merge-case", c22MI+name+" when "+tc.inval.Name()+" is exhausted uses only "+tc.use.Name(), f.Pos(), ok, "")
-			}
-		}
+		n++
+		c.Check("merge-case", c22MI+"skipCacheDeletes loop", f.Pos(), ok, "the cache may be advanced only while it is valid, a delete marker, and strictly before `until` in iteration order")
 	}
 	c.Floor("merge-case", n, 18)
 
 	// compare: direction aware
 	m := 0
 	if f := c.MustFunc(c22MI + "compare"); f != nil {
-		info := f.Info()
 		ascF := p.Field(c22Cache + ".cacheMergeIterator.ascending")
+		isAsc := func(cx *sfCtx, e ast.Expr) bool { return sfFieldSel(cx.fn.Info(), e, ascF) }
+		seenAsc, seenDesc := false, false
+		root := sfRoot(f)
 		for _, r := range sfReturns(f) {
 			st := f.SiteOf(r)
 			if st == nil || len(r.Results) != 1 {
 				continue
 			}
 			flips, found := c22Sign(f, r.Results[0])
-			if !found {
-				c.Check("merge-compare", c22MI+"compare return", r.Pos(), false, "return value is not a (possibly negated) bytes.Compare(a, b)")
-				m++
-				continue
-			}
-			isAsc := func(e ast.Expr) bool { return sfFieldSel(info, e, ascF) }
-			asc := sfHolds(f, st, true, isAsc)
-			desc := !asc // fallthrough return after `if iter.ascending {return}` : not dominated by a gate; treat as the else branch
-			_ = desc
-			want := 0
-			if !asc {
-				want = 1
-			}
+			facts := sfFactsAt(root, st)
+			asc, desc := sfKnown(facts, true, isAsc), sfKnown(facts, false, isAsc)
 			m++
-			c.Check("merge-compare", c22MI+"compare ascending="+map[bool]string{true: "true", false: "false"}[asc], r.Pos(), flips%2 == want,
-				"ascending must order by bytes.Compare(a,b), descending by its negation")
+			switch {
+			case !found:
+				c.Check("merge-compare", c22MI+"compare return", r.Pos(), false, "return value is not a (possibly negated) bytes.Compare(a, b)")
+			case asc == desc:
+				c.Check("merge-compare", c22MI+"compare return", r.Pos(), false, "the direction is not known at this return")
+			case asc:
+				seenAsc = true
+				c.Check("merge-compare", c22MI+"compare ascending=true", r.Pos(), flips%2 == 0, "ascending must order by bytes.Compare(a,b)")
+			default:
+				seenDesc = true
+				c.Check("merge-compare", c22MI+"compare ascending=false", r.Pos(), flips%2 == 1, "descending must order by the negation of bytes.Compare(a,b)")
+			}
 		}
-		// exactly one return is gated by ascending
-		c.Check("merge-compare", c22MI+"compare has both directions", f.Pos(), m == 2, "expected two returns (ascending / descending)")
 		m++
+		c.Check("merge-compare", c22MI+"compare has both directions", f.Pos(), seenAsc && seenDesc, "expected a return per direction")
 	}
 	c.Floor("merge-compare", m, 3)
-
-	// skipCacheDeletes: loop condition
-	k := 0
-	if f := c.MustFunc(c22MI + "skipCacheDeletes"); f != nil {
-		info := f.Info()
-		var loop *ast.ForStmt
-		engine.InspectBody(f, func(x ast.Node) {
-			if l, ok := x.(*ast.ForStmt); ok && loop == nil {
-				loop = l
-			}
-		})
-		ok := loop != nil && loop.Cond != nil
-		if ok {
-			hasValid, hasNilVal, hasBound := false, false, false
-			for _, cj := range engine.Conjuncts(loop.Cond, token.LAND) {
-				if cl, isC := ast.Unparen(cj).(*ast.CallExpr); isC {
-					if fld, mm := sfMethodOnField(info, cl); fld == cacheF && mm == "Valid" {
-						hasValid = true
-					}
-				}
-				if a, b, op, isC := sfCmp(cj); isC && op == token.EQL && isNil(b) {
-					if cl, isCall := ast.Unparen(a).(*ast.CallExpr); isCall {
-						if fld, mm := sfMethodOnField(info, cl); fld == cacheF && mm == "Value" {
-							hasNilVal = true
-						}
-					}
-				}
-				for _, dj := range engine.Conjuncts(cj, token.LOR) {
-					if a, b, op, isC := sfCmp(dj); isC && op == token.LSS && sfIsIntLit(b, "0") {
-						if cl, isCall := sfIsCallTo(info, a, c22MI+"compare"); isCall && len(cl.Args) == 2 && sfIsParam(f, cl.Args[1], 0) {
-							hasBound = true
-						}
-					}
-				}
-			}
-			ok = hasValid && hasNilVal && hasBound && sfEq(sfFieldMethodCalls(f, loop.Body), []string{"cache.Next"})
-		}
-		k++
-		c.Check("merge-case", c22MI+"skipCacheDeletes loop", f.Pos(), ok, "loop must advance the cache only while it is valid, a delete marker, and strictly before `until` in iteration order")
-	}
-	c.Floor("merge-skip", k, 1)
 }
 
-func c22Uniq(xs []string) []string {
-	var out []string
-	for i, x := range xs {
-		if i == 0 || x != xs[i-1] {
-			out = append(out, x)
-		}
+func c22Expr(e ast.Expr) string {
+	if e == nil {
+		return "<zero value>"
 	}
-	return out
+	return engine.ExprString(e)
 }
 
 // c22Sign counts sign flips around a bytes.Compare(a,b) call where a,b are
-// parameters 0,1 of f (swapped arguments count as one flip).
+// parameters 0,1 of f (swapped arguments count as one flip); single-definition
+// locals are followed.
 func c22Sign(f *engine.Fn, e ast.Expr) (flips int, ok bool) {
 	info := f.Info()
 	e = ast.Unparen(e)
 	switch x := e.(type) {
+	case *ast.Ident:
+		if d := sfSingleDef(f, info.ObjectOf(x)); d != nil {
+			return c22Sign(f, d)
+		}
 	case *ast.CallExpr:
 		if _, is := sfIsCallTo(info, x, "bytes.Compare"); is && len(x.Args) == 2 {
 			if sfIsParam(f, x.Args[0], 0) && sfIsParam(f, x.Args[1], 1) {
@@ -554,91 +794,17 @@ func c22Sign(f *engine.Fn, e ast.Expr) (flips int, ok bool) {
 		}
 	case *ast.BinaryExpr:
 		if x.Op == token.MUL {
-			if sfIsIntLit(x.Y, "-1") {
+			if k, isK := sfConstInt(info, x.Y); isK && k == -1 {
 				n, ok := c22Sign(f, x.X)
 				return n + 1, ok
 			}
-			if sfIsIntLit(x.X, "-1") {
+			if k, isK := sfConstInt(info, x.X); isK && k == -1 {
 				n, ok := c22Sign(f, x.Y)
 				return n + 1, ok
 			}
 		}
 	}
 	return 0, false
-}
-
-// ---- mem iterator ----
-
-func c22Mem(c *engine.Ctx, p *engine.Prog) {
-	const MI = c22Cache + ".(*memIterator)."
-	n := 0
-	ascF := p.Field(c22Cache + ".memIterator.ascending")
-	itemsF := p.Field(c22Cache + ".memIterator.items")
-	for _, name := range []string{"Key", "Value", "Next"} {
-		f := c.MustFunc(MI + name)
-		if f == nil {
-			continue
-		}
-		info := f.Info()
-		isAsc := func(e ast.Expr) bool { return sfFieldSel(info, e, ascF) }
-		isLenM1 := func(e ast.Expr) bool {
-			b, ok := ast.Unparen(e).(*ast.BinaryExpr)
-			if !ok || b.Op != token.SUB || !sfIsIntLit(b.Y, "1") {
-				return false
-			}
-			cl, ok := ast.Unparen(b.X).(*ast.CallExpr)
-			return ok && engine.IsBuiltinCall(info, cl, "len") && sfFieldSel(info, cl.Args[0], itemsF)
-		}
-		front, back := 0, 0
-		engine.InspectBody(f, func(x ast.Node) {
-			var st *engine.Site
-			var isFront, isBack bool
-			switch e := x.(type) {
-			case *ast.IndexExpr:
-				if !sfFieldSel(info, e.X, itemsF) {
-					return
-				}
-				isFront, isBack = sfIsIntLit(e.Index, "0"), isLenM1(e.Index)
-				st = f.SiteOf(e)
-			case *ast.SliceExpr:
-				if !sfFieldSel(info, e.X, itemsF) {
-					return
-				}
-				isFront = e.Low != nil && sfIsIntLit(e.Low, "1") && e.High == nil
-				isBack = e.Low == nil && e.High != nil && isLenM1(e.High)
-				st = f.SiteOf(e)
-			default:
-				return
-			}
-			if st == nil {
-				return
-			}
-			asc := sfHolds(f, st, true, isAsc)
-			ok := (asc && isFront) || (!asc && isBack)
-			if asc {
-				front++
-			} else {
-				back++
-			}
-			n++
-			c.Check("mem-end", MI+name+" ascending="+map[bool]string{true: "true", false: "false"}[asc], st.Pos(), ok,
-				"ascending consumes the front of the sorted slice, descending the back")
-		})
-		c.Check("mem-end", MI+name+" has both directions", f.Pos(), front == 1 && back == 1, "")
-		n++
-	}
-	if f := c.MustFunc(c22Cache + ".newMemIterator"); f != nil {
-		info := f.Info()
-		for _, s := range f.CallsTo("builtin.append") {
-			inDom := func(e ast.Expr) bool {
-				cl, ok := sfIsCallTo(info, e, "tm2/pkg/db.IsKeyInDomain")
-				return ok && len(cl.Args) == 3 && sfIsParam(f, cl.Args[1], 0) && sfIsParam(f, cl.Args[2], 1)
-			}
-			n++
-			c.Check("mem-end", c22Cache+".newMemIterator keeps exactly the items in [start,end)", s.Pos(), sfHolds(f, s, true, inDom), "append must be gated by IsKeyInDomain(item.Key, start, end)")
-		}
-	}
-	c.Floor("mem-end", n, 10)
 }
 
 // ---- writeLocked ----
@@ -649,78 +815,147 @@ func c22Write(c *engine.Ctx, p *engine.Prog) {
 	if f == nil {
 		return
 	}
-	info := f.Info()
-	g := f.Graph()
 	delF := p.Field(c22Cache + ".cValue.deleted")
 	valF := p.Field(c22Cache + ".cValue.value")
 	dirtyF := p.Field(c22Cache + ".cValue.dirty")
-	isDeleted := func(e ast.Expr) bool { return sfFieldSel(info, e, delF) }
-	isDirty := func(e ast.Expr) bool { return sfFieldSel(info, e, dirtyF) }
-	isNilValue := func(e ast.Expr) bool {
-		a, b, op, ok := sfCmp(e)
-		return ok && op == token.EQL && isNil(b) && sfFieldSel(info, a, valF)
+	fieldIs := func(fld *types.Var) func(*sfCtx, ast.Expr) bool {
+		return func(cx *sfCtx, e ast.Expr) bool { return sfFieldSel(cx.fn.Info(), e, fld) }
 	}
-	allowed := func(e ast.Expr) bool {
-		for _, a := range engine.Atoms(e) {
-			if !(isDeleted(a) || isNilValue(a) || c22IsDbAdapterOK(f, a) || c22IsErrNil(a)) {
-				return false
+	valueCmpNil := func(op token.Token) func(*sfCtx, ast.Expr) bool {
+		return func(cx *sfCtx, e ast.Expr) bool {
+			a, b, o, ok := sfCmp(e)
+			return ok && o == op && isNil(b) && sfOperandIs(cx, a, sfIsField(valF))
+		}
+	}
+	valueIsNil := func(facts []sfFact) int {
+		switch {
+		case sfKnown(facts, true, valueCmpNil(token.EQL)) || sfKnown(facts, false, valueCmpNil(token.NEQ)):
+			return 1
+		case sfKnown(facts, false, valueCmpNil(token.EQL)) || sfKnown(facts, true, valueCmpNil(token.NEQ)):
+			return -1
+		}
+		return 0
+	}
+	// facts that may legitimately surround a parent write
+	foreign := func(facts []sfFact, allowValue bool) string {
+		for _, ft := range facts {
+			e := ast.Unparen(ft.e)
+			if b, ok := e.(*ast.BinaryExpr); ok && (b.Op == token.LAND || b.Op == token.LOR) {
+				continue
 			}
+			if u, ok := e.(*ast.UnaryExpr); ok && u.Op == token.NOT {
+				continue
+			}
+			info := ft.ctx.fn.Info()
+			switch {
+			case sfFieldSel(info, e, delF), sfErrCmp(info, e), c22IsDbAdapterOK(ft.ctx.fn, e):
+				continue
+			case allowValue && (valueCmpNil(token.EQL)(ft.ctx, e) || valueCmpNil(token.NEQ)(ft.ctx, e)):
+				continue
+			}
+			if _, isLoop := c22LoopCond(ft.ctx.fn, e); isLoop {
+				continue
+			}
+			// a single-definition local that merely names one of the above was expanded already
+			if id, ok := e.(*ast.Ident); ok && sfSingleDef(ft.ctx.fn, info.ObjectOf(id)) != nil {
+				continue
+			}
+			if _, isTA := e.(*ast.TypeAssertExpr); isTA {
+				continue
+			}
+			return engine.ExprString(e)
 		}
-		return true
+		return ""
 	}
-	dels, sets := 0, 0
-	for _, s := range f.Calls() {
-		nm := s.CalleeName()
-		switch nm {
-		case "tm2/pkg/db.(Batch).Delete", "tm2/pkg/store/types.(Store).Delete":
-			dels++
-			n++
-			ok := sfHolds(f, s, true, isDeleted) && len(sfOtherGates(f, s, allowed)) == 0 && c22ExactGates(f, s, 1, isDeleted, isNilValue)
-			c.Check("write-net", c22CS+"writeLocked "+nm, s.Pos(), ok, "a dirty key is deleted in the parent exactly when its entry is marked deleted (no other condition)")
-		case "tm2/pkg/db.(Batch).Set", "tm2/pkg/store/types.(Store).Set":
-			sets++
-			n++
-			ok := sfHolds(f, s, false, isDeleted) && sfHolds(f, s, false, isNilValue) && len(sfOtherGates(f, s, allowed)) == 0
-			// value argument is the entry's value
-			va := s.Call.Args[len(s.Call.Args)-1]
-			ok = ok && sfFieldSel(info, va, valF)
-			c.Check("write-net", c22CS+"writeLocked "+nm, s.Pos(), ok, "a dirty key is set in the parent, with the cached value, exactly when it is not deleted and its value is non-nil")
-		}
-	}
-	c.Check("write-net", c22CS+"writeLocked handles both parent kinds", f.Pos(), dels == 2 && sets == 2, "expected Delete and Set on the batch path and on the plain path")
-	n++
-	for _, s := range f.CallsTo("builtin.append") {
+	names := []string{"tm2/pkg/db.(Batch).Delete", "tm2/pkg/store/types.(Store).Delete", "tm2/pkg/db.(Batch).Set", "tm2/pkg/store/types.(Store).Set"}
+	sites := sfDeepCalls(f, 3, nil, func(cx *sfCtx, s *engine.Site) bool { return engine.MatchName(s.CalleeName(), names...) })
+	cnt := map[string]int{}
+	for _, d := range sites {
+		nm := d.callee()
+		cnt[nm]++
+		facts := d.facts()
 		n++
-		c.Check("write-net", c22CS+"writeLocked collects exactly the dirty keys", s.Pos(),
-			sfHolds(f, s, true, isDirty) && len(sfOtherGates(f, s, func(e ast.Expr) bool { return isDirty(ast.Unparen(e)) })) == 0,
-			"only entries with dirty==true are flushed (clean read-cache entries are not net changes), and all of them")
+		if strings.HasSuffix(nm, ".Delete") {
+			other := foreign(facts, false)
+			ok := sfKnown(facts, true, fieldIs(delF)) && valueIsNil(facts) == 0 && other == ""
+			c.Check("write-net", c22CS+"writeLocked "+nm, d.where(), ok, "a dirty key is deleted in the parent exactly when its entry is marked deleted (no other condition"+c22Also(other)+")")
+		} else {
+			other := foreign(facts, true)
+			ok := sfKnown(facts, false, fieldIs(delF)) && valueIsNil(facts) == -1 && other == ""
+			va := d.site.Call.Args[len(d.site.Call.Args)-1]
+			ok = ok && sfAllLeafs(sfLeafs(d.ctx, va, d.site, 3, nil), func(l sfLeaf) bool { return l.e != nil && sfFieldSel(l.ctx.fn.Info(), l.e, valF) })
+			c.Check("write-net", c22CS+"writeLocked "+nm, d.where(), ok, "a dirty key is set in the parent, with the cached value, exactly when it is not deleted and its value is non-nil"+c22Also(other))
+		}
 	}
-	ss := f.CallsTo("sort.Strings")
-	ok := len(ss) == 1
+	n++
+	c.Check("write-net", c22CS+"writeLocked handles both parent kinds", f.Pos(),
+		cnt[names[1]] >= 1 && cnt[names[3]] >= 1 && (cnt[names[0]] >= 1) == (cnt[names[2]] >= 1) && cnt[names[0]] >= 1,
+		"expected Delete and Set on the batch path and on the plain-store path")
+	apps := 0
+	for _, d := range sfDeepCallsTo(f, 3, "builtin.append") {
+		// the collection of keys to flush: an append whose appended element is a map key of store.cache
+		apps++
+		facts := d.facts()
+		other := ""
+		for _, ft := range facts {
+			e := ast.Unparen(ft.e)
+			if sfFieldSel(ft.ctx.fn.Info(), e, dirtyF) {
+				continue
+			}
+			if id, ok := e.(*ast.Ident); ok && sfSingleDef(ft.ctx.fn, ft.ctx.fn.Info().ObjectOf(id)) != nil {
+				continue
+			}
+			other = engine.ExprString(e)
+		}
+		n++
+		c.Check("write-net", c22CS+"writeLocked collects exactly the dirty keys", d.where(), sfKnown(facts, true, fieldIs(dirtyF)) && other == "",
+			"only entries with dirty==true are flushed (clean read-cache entries are not net changes), and all of them"+c22Also(other))
+	}
+	n++
+	c.Check("write-net", c22CS+"writeLocked collects keys", f.Pos(), apps >= 1, "")
+	ss := sfDeepCallsTo(f, 3, "sort.Strings", "slices.Sort", "sort.Sort")
+	ok := len(ss) >= 1
 	if ok {
-		for _, s := range f.Calls() {
-			switch s.CalleeName() {
-			case "tm2/pkg/db.(Batch).Delete", "tm2/pkg/store/types.(Store).Delete", "tm2/pkg/db.(Batch).Set", "tm2/pkg/store/types.(Store).Set":
-				ok = ok && g.Dominates(ss[0], s)
+		for _, d := range sites {
+			ok = ok && sfDomDS(ss[0], d)
+		}
+	}
+	n++
+	c.Check("write-net", c22CS+"writeLocked sorts keys first", f.Pos(), ok, "parent writes must happen in sorted key order")
+	bw := sfDeepCallsTo(f, 3, "tm2/pkg/db.(Batch).Write", "tm2/pkg/db.(Batch).WriteSync")
+	okw := len(bw) >= 1
+	for _, w := range bw {
+		okw = okw && sfErrHandled(w.ctx.fn, w.site.Call, true) && foreign(w.facts(), false) == ""
+		for _, d := range sites {
+			if strings.HasPrefix(d.callee(), "tm2/pkg/db.(Batch).") && sfSameCtx(d.ctx, w.ctx) {
+				okw = okw && w.ctx.fn.Graph().ReachableAfter(d.site, w.site)
 			}
 		}
 	}
-	c.Check("write-net", c22CS+"writeLocked sorts keys first", f.Pos(), ok, "parent writes must happen in sorted key order")
 	n++
-	bw := f.CallsTo("tm2/pkg/db.(Batch).Write")
-	okw := len(bw) == 1
-	if okw {
-		for _, s := range f.CallsTo("tm2/pkg/db.(Batch).Set", "tm2/pkg/db.(Batch).Delete") {
-			okw = okw && g.ReachableAfter(s, bw[0])
-		}
-		okw = okw && c22ErrPanics(f, bw[0])
-	}
-	c.Check("write-net", c22CS+"writeLocked batch is written and checked", f.Pos(), okw, "batch.Write() must follow the staged ops and its error must panic")
+	c.Check("write-net", c22CS+"writeLocked batch is written and checked", f.Pos(), okw, "batch.Write() must follow the staged ops, unconditionally, and its error must panic")
+	cl := sfDeepCallsTo(f, 2, c22CS+"clear")
 	n++
-	cl := f.CallsTo(c22CS + "clear")
-	c.Check("write-net", c22CS+"writeLocked clears the layer afterwards", f.Pos(), len(cl) == 1 && !cl[0].Deferred && len(g.Gates(cl[0])) == 0, "after the flush the layer must be empty on every path")
-	n++
+	c.Check("write-net", c22CS+"writeLocked clears the layer afterwards", f.Pos(), len(cl) >= 1 && !cl[0].outer().Deferred && len(cl[0].facts()) == 0, "after the flush the layer must be empty on every path")
 	c.Floor("write-net", n, 9)
+}
+
+func c22Also(other string) string {
+	if other == "" {
+		return ""
+	}
+	return "; also depends on `" + other + "`"
+}
+
+// c22LoopCond: e is the condition of a for statement of f.
+func c22LoopCond(f *engine.Fn, e ast.Expr) (*ast.ForStmt, bool) {
+	var out *ast.ForStmt
+	engine.InspectBody(f, func(n ast.Node) {
+		if l, ok := n.(*ast.ForStmt); ok && l.Cond != nil && ast.Unparen(l.Cond) == e {
+			out = l
+		}
+	})
+	return out, out != nil
 }
 
 func c22IsErrNil(e ast.Expr) bool {
@@ -732,7 +967,7 @@ func c22IsErrNil(e ast.Expr) bool {
 	return ok && id.Name == "err"
 }
 
-// c22IsDbAdapterOK: the comma-ok of `store.parent.(dbadapterStore)`.
+// c22IsDbAdapterOK: the comma-ok of a type assertion.
 func c22IsDbAdapterOK(f *engine.Fn, e ast.Expr) bool {
 	id, ok := ast.Unparen(e).(*ast.Ident)
 	if !ok {
@@ -748,24 +983,120 @@ func c22IsDbAdapterOK(f *engine.Fn, e ast.Expr) bool {
 	return false
 }
 
-// c22ExactGates: number of data gates (matching any of preds) equals n.
-func c22ExactGates(f *engine.Fn, s *engine.Site, n int, preds ...func(ast.Expr) bool) bool {
-	k := 0
-	for _, g := range f.Graph().Gates(s) {
-		for _, a := range engine.Atoms(g.Cond) {
-			for _, p := range preds {
-				if p(a) {
-					k++
-				}
-			}
-		}
-	}
-	return k == n
-}
-
 // c22ErrPanics: the error result of call s is tested and the failing branch never returns normally.
 func c22ErrPanics(f *engine.Fn, s *engine.Site) bool {
 	return sfErrHandled(f, s.Call, true)
+}
+
+// ---- the cache entry each operation records ----
+
+func c22OpEntry(c *engine.Ctx, p *engine.Prog) {
+	n := 0
+	parentF := p.Field(c22Cache + ".cacheStore.parent")
+	for _, tc := range []struct {
+		fn             string
+		valueParam     int // index of the value parameter, -1: nil, -2: fetched from the parent
+		deleted, dirty bool
+	}{
+		{"Get", -2, false, false},
+		{"Set", 2, false, true},
+		{"Delete", -1, true, true},
+	} {
+		f := c.MustFunc(c22CS + tc.fn)
+		if f == nil {
+			continue
+		}
+		ss := sfDeepCallsTo(f, 2, c22CS+"setCacheValue")
+		ok := len(ss) == 1
+		why := "expected exactly one setCacheValue call"
+		if ok {
+			d := ss[0]
+			a := d.site.Call.Args
+			del, isD := sfConstBool(d.info(), a[2])
+			dirty, isY := sfConstBool(d.info(), a[3])
+			ok = len(a) == 4 && d.rootParam(0) == 1 && isD && isY && del == tc.deleted && dirty == tc.dirty
+			why = "entry must be recorded as (key, value, deleted=" + c22Bool(tc.deleted) + ", dirty=" + c22Bool(tc.dirty) + ")"
+			switch {
+			case !ok:
+			case tc.valueParam >= 0:
+				ok = d.rootParam(1) == tc.valueParam
+			case tc.valueParam == -1:
+				ok = sfAllLeafs(sfLeafs(d.ctx, a[1], d.site, 3, nil), func(l sfLeaf) bool { return l.e != nil && isNil(l.e) })
+			default:
+				ok = sfAllLeafs(sfLeafs(d.ctx, a[1], d.site, 4, nil), func(l sfLeaf) bool {
+					if l.e == nil || !sfFieldCallIs(l.ctx, l.e, parentF, "Get") {
+						return false
+					}
+					cl := ast.Unparen(l.e).(*ast.CallExpr)
+					return len(cl.Args) == 2 && sfRootParam(l.ctx, cl.Args[1]) == 1
+				})
+				why = "a read miss must cache exactly what parent.Get(key) returned, as a clean entry"
+			}
+		}
+		n++
+		c.Check("op-entry", c22CS+tc.fn, f.Pos(), ok, why)
+	}
+	// a cache hit answers from the entry
+	if f := c.MustFunc(c22CS + "Get"); f != nil {
+		valF := p.Field(c22Cache + ".cValue.value")
+		cacheF := p.Field(c22Cache + ".cacheStore.cache")
+		root := sfRoot(f)
+		hit, all := false, true
+		for _, r := range sfReturns(f) {
+			st := f.SiteOf(r)
+			if st == nil {
+				continue
+			}
+			var res ast.Expr
+			if len(r.Results) == 1 {
+				res = r.Results[0]
+			}
+			var leaves []sfLeaf
+			if res != nil {
+				leaves = sfLeafs(root, res, st, 4, nil)
+			} else if nr := sfNamedResult(f, 0); nr != nil {
+				sfLeafsVar(root, nr, st, 4, nil, nil, &leaves)
+			}
+			base := sfFactsAt(root, st)
+			for _, l := range leaves {
+				switch {
+				case l.e != nil && sfFieldCallIs(l.ctx, l.e, parentF, "Get"):
+				case l.e != nil && sfFieldSel(l.ctx.fn.Info(), l.e, valF):
+					facts := append(append([]sfFact{}, base...), l.facts...)
+					if sfKnown(facts, true, func(cx *sfCtx, e ast.Expr) bool { return c22IsMapOK(cx.fn, e, cacheF) }) {
+						hit = true
+					} else {
+						all = false
+					}
+				default:
+					all = false
+				}
+			}
+		}
+		n++
+		c.Check("op-entry", c22CS+"Get answers a hit from the cached entry", f.Pos(), hit && all, "the result is the entry's value on a hit (comma-ok of store.cache[key]) and parent.Get(key) on a miss, nothing else")
+	}
+	c.Floor("op-entry", n, 4)
+}
+
+// c22IsMapOK: e is the comma-ok variable of an index into the given map field.
+func c22IsMapOK(f *engine.Fn, e ast.Expr, mapField *types.Var) bool {
+	id, ok := ast.Unparen(e).(*ast.Ident)
+	if !ok {
+		return false
+	}
+	obj := f.Info().ObjectOf(id)
+	found := false
+	engine.InspectBody(f, func(n ast.Node) {
+		as, ok := n.(*ast.AssignStmt)
+		if !ok || len(as.Lhs) != 2 || len(as.Rhs) != 1 || engine.ObjOf(f.Info(), as.Lhs[1]) != obj {
+			return
+		}
+		if ix, ok := ast.Unparen(as.Rhs[0]).(*ast.IndexExpr); ok && sfFieldSel(f.Info(), ix.X, mapField) {
+			found = true
+		}
+	})
+	return found
 }
 
 // ---- checkpoint ----
@@ -779,38 +1110,68 @@ func c22Checkpoint(c *engine.Ctx, p *engine.Prog) {
 		return
 	}
 	if f := c.MustFunc(c22CS + "WriteCheckpoint"); f != nil {
-		info := f.Info()
-		g := f.Graph()
-		wl := f.CallsTo(c22CS + "writeLocked")
-		var restore *engine.Site
-		engine.InspectBody(f, func(x ast.Node) {
-			as, ok := x.(*ast.AssignStmt)
-			if ok && len(as.Lhs) == 1 && len(as.Rhs) == 1 && sfFieldSel(info, as.Lhs[0], cacheF) && sfFieldSel(info, as.Rhs[0], chkF) {
-				restore = f.SiteOf(as)
-			}
-		})
-		ok := len(wl) == 1 && restore != nil && g.Dominates(restore, wl[0])
+		wl := sfDeepCallsTo(f, 2, c22CS+"writeLocked")
+		// the restore `store.cache = <checkpointCache>` in f or a helper
+		var restore *sfDS
+		for _, cx := range sfCtxs(sfRoot(f), 2, func(nm string) bool { return nm == c22CS+"writeLocked" }) {
+			info := cx.fn.Info()
+			engine.InspectBody(cx.fn, func(x ast.Node) {
+				as, ok := x.(*ast.AssignStmt)
+				if !ok || len(as.Lhs) != len(as.Rhs) {
+					return
+				}
+				for i, l := range as.Lhs {
+					if !sfFieldSel(info, l, cacheF) {
+						continue
+					}
+					st := cx.fn.SiteOf(as)
+					if st != nil && sfAllLeafs(sfLeafs(cx, as.Rhs[i], st, 3, nil), func(lf sfLeaf) bool { return lf.e != nil && sfFieldSel(lf.ctx.fn.Info(), lf.e, chkF) }) {
+						restore = &sfDS{cx, st}
+					}
+				}
+			})
+		}
+		ok := len(wl) == 1 && restore != nil && sfDomDS(*restore, wl[0])
 		n++
 		c.Check("checkpoint", c22CS+"WriteCheckpoint restores the snapshot before flushing", f.Pos(), ok, "store.cache = store.checkpointCache must dominate writeLocked()")
-		isNilChk := func(e ast.Expr) bool {
-			a, b, op, isC := sfCmp(e)
-			return isC && op == token.EQL && isNil(b) && sfFieldSel(info, a, chkF)
+		nilChk := func(op token.Token) func(*sfCtx, ast.Expr) bool {
+			return func(cx *sfCtx, e ast.Expr) bool {
+				a, b, o, isC := sfCmp(e)
+				return isC && o == op && isNil(b) && sfOperandIs(cx, a, sfIsField(chkF))
+			}
+		}
+		okN := len(wl) == 1
+		if okN {
+			facts := wl[0].facts()
+			okN = sfKnown(facts, false, nilChk(token.EQL)) || sfKnown(facts, true, nilChk(token.NEQ))
 		}
 		n++
-		c.Check("checkpoint", c22CS+"WriteCheckpoint requires an active checkpoint", f.Pos(), len(wl) == 1 && sfHolds(f, wl[0], false, isNilChk), "flush must be unreachable when checkpointCache == nil")
+		c.Check("checkpoint", c22CS+"WriteCheckpoint requires an active checkpoint", f.Pos(), okN, "flush must be unreachable when checkpointCache == nil")
 	}
 	if f := c.MustFunc(c22CS + "Checkpoint"); f != nil {
-		info := f.Info()
 		ok := false
-		engine.InspectBody(f, func(x ast.Node) {
-			as, isAs := x.(*ast.AssignStmt)
-			if !isAs || len(as.Lhs) != 1 || len(as.Rhs) != 1 || !sfFieldSel(info, as.Lhs[0], chkF) {
-				return
-			}
-			if cl, isC := sfIsCallTo(info, as.Rhs[0], "maps.Clone"); isC && len(cl.Args) == 1 && sfFieldSel(info, cl.Args[0], cacheF) {
-				ok = true
-			}
-		})
+		for _, cx := range sfCtxs(sfRoot(f), 2, nil) {
+			info := cx.fn.Info()
+			engine.InspectBody(cx.fn, func(x ast.Node) {
+				as, isAs := x.(*ast.AssignStmt)
+				if !isAs || len(as.Lhs) != len(as.Rhs) {
+					return
+				}
+				for i, l := range as.Lhs {
+					if !sfFieldSel(info, l, chkF) {
+						continue
+					}
+					st := cx.fn.SiteOf(as)
+					ok = sfAllLeafs(sfLeafs(cx, as.Rhs[i], st, 3, func(c2 *sfCtx, cl *ast.CallExpr) bool { return true }), func(lf sfLeaf) bool {
+						if lf.e == nil {
+							return false
+						}
+						cl, isC := sfIsCallTo(lf.ctx.fn.Info(), lf.e, "maps.Clone")
+						return isC && len(cl.Args) == 1 && sfFieldSel(lf.ctx.fn.Info(), cl.Args[0], cacheF)
+					})
+				}
+			})
+		}
 		n++
 		c.Check("checkpoint", c22CS+"Checkpoint clones the cache map", f.Pos(), ok, "the snapshot must be a copy (maps.Clone(store.cache)), not an alias of the live map")
 	}
@@ -823,29 +1184,40 @@ func c22Checkpoint(c *engine.Ctx, p *engine.Prog) {
 		c.Check("checkpoint", c22Cache+".cValue."+fn+" never mutated in place", token.NoPos, fld != nil && len(bad) == 0 && len(ws) >= 1,
 			"the shallow checkpoint clone shares *cValue pointers; in-place writers: "+join(bad))
 	}
-	// every element stored into cache is a fresh &cValue{...}
-	if f := c.MustFunc(c22CS + "setCacheValue"); f != nil {
-		info := f.Info()
-		ok := false
-		engine.InspectBody(f, func(x ast.Node) {
-			as, isAs := x.(*ast.AssignStmt)
-			if !isAs || len(as.Lhs) != 1 {
-				return
+	// every element stored into the cache map is a fresh &cValue{...}
+	stores, fresh := 0, 0
+	for _, w := range p.FieldWrites(cacheF) {
+		if w.Direct || w.Kind != "assign" {
+			continue
+		}
+		as, ok := w.Node.(*ast.AssignStmt)
+		if !ok {
+			continue
+		}
+		for i, l := range as.Lhs {
+			ix, isIx := ast.Unparen(l).(*ast.IndexExpr)
+			if !isIx || !sfFieldSel(w.Fn.Info(), ix.X, cacheF) || len(as.Rhs) != len(as.Lhs) {
+				continue
 			}
-			ix, isIx := as.Lhs[0].(*ast.IndexExpr)
-			if !isIx || !sfFieldSel(info, ix.X, cacheF) {
-				return
-			}
-			u, isU := ast.Unparen(as.Rhs[0]).(*ast.UnaryExpr)
-			if isU && u.Op == token.AND {
-				if _, isLit := u.X.(*ast.CompositeLit); isLit {
-					ok = true
+			stores++
+			st := w.Fn.SiteOf(as)
+			if sfAllLeafs(sfLeafs(sfRoot(w.Fn), as.Rhs[i], st, 3, nil), func(lf sfLeaf) bool {
+				if lf.e == nil {
+					return false
 				}
+				u, isU := ast.Unparen(lf.e).(*ast.UnaryExpr)
+				if !isU || u.Op != token.AND {
+					return false
+				}
+				_, isLit := ast.Unparen(u.X).(*ast.CompositeLit)
+				return isLit
+			}) {
+				fresh++
 			}
-		})
-		n++
-		c.Check("checkpoint", c22CS+"setCacheValue stores a fresh entry", f.Pos(), ok, "store.cache[k] must be assigned a new &cValue{…}")
+		}
 	}
+	n++
+	c.Check("checkpoint", c22Cache+".cacheStore.cache elements are fresh entries", token.NoPos, stores >= 1 && fresh == stores, "every store.cache[k] = … must assign a new &cValue{…}")
 	c.Floor("checkpoint", n, 7)
 }
 
@@ -871,10 +1243,11 @@ func c22Writers(c *engine.Ctx, p *engine.Prog) {
 		ws := p.FieldWrites(fld)
 		d := engine.WriterSet(ws, func(w engine.Write) bool { return w.Direct })
 		th := engine.WriterSet(ws, func(w engine.Write) bool { return !w.Direct })
+		// unexported helpers all of whose callers are tabled writers count as part of them
+		badD, badT := sfWritersOK(p, d, t.direct), sfWritersOK(p, th, t.through)
 		n++
-		c.Check("who-may-write", c22Cache+".cacheStore."+t.field, token.NoPos,
-			len(engine.SetDiff(d, t.direct)) == 0 && len(engine.SetDiff(th, t.through)) == 0,
-			"direct writers: "+join(d)+"; element writers: "+join(th))
+		c.Check("who-may-write", c22Cache+".cacheStore."+t.field, token.NoPos, len(badD) == 0 && len(badT) == 0,
+			"direct writers: "+join(d)+"; element writers: "+join(th)+"; not allowed: "+join(append(badD, badT...)))
 	}
 	c.Floor("who-may-write", n, 4)
 }
@@ -888,54 +1261,174 @@ func c22Locks(c *engine.Ctx, p *engine.Prog) {
 			guarded[v] = true
 		}
 	}
-	callerHolds := map[string]bool{c22CS + "writeLocked": true, c22CS + "clear": true, c22CS + "dirtyItems": true, c22CS + "setCacheValue": true}
 	exempt := map[string]string{c22CS + "Print": "debug dump, not a store operation"}
-	n := 0
-	locking := map[string]bool{}
-	for _, f := range sfMethodsOf(p, c22Cache, "cacheStore") {
-		touches := false
+	methods := sfMethodsOf(p, c22Cache, "cacheStore")
+	isMethod := map[string]*engine.Fn{}
+	for _, f := range methods {
+		isMethod[f.Name] = f
+	}
+	touches := map[string]bool{}
+	for _, f := range methods {
 		for _, root := range append([]*engine.Fn{f}, f.AllLits()...) {
 			ast.Inspect(root.Body, func(x ast.Node) bool {
 				if se, ok := x.(*ast.SelectorExpr); ok {
 					if v, ok := f.Info().Uses[se.Sel].(*types.Var); ok && guarded[v.Origin()] {
-						touches = true
+						touches[f.Name] = true
 					}
 				}
 				return true
 			})
 		}
-		for _, root := range append([]*engine.Fn{f}, f.AllLits()...) {
-			for _, s := range root.Calls() {
-				if callerHolds[s.CalleeName()] {
-					touches = true
+	}
+	// propagate: a method that calls a touching method which does not lock by itself touches, too
+	locks := map[string]bool{}
+	why := map[string]string{}
+	for _, f := range methods {
+		ok, w := locksFirst(f, "mtx")
+		locks[f.Name], why[f.Name] = ok, w
+	}
+	for changed := true; changed; {
+		changed = false
+		for _, f := range methods {
+			if touches[f.Name] {
+				continue
+			}
+			for _, root := range append([]*engine.Fn{f}, f.AllLits()...) {
+				for _, s := range root.Calls() {
+					if cal := s.CalleeName(); touches[cal] && !locks[cal] && isMethod[cal] != nil {
+						touches[f.Name] = true
+						changed = true
+					}
 				}
 			}
 		}
-		if !touches || exempt[f.Name] != "" {
-			continue
-		}
-		if callerHolds[f.Name] {
-			continue
-		}
-		ok, why := locksFirst(f, "mtx")
-		if ok {
-			locking[f.Name] = true
-		}
-		n++
-		c.Check("holds-lock", f.Name, f.Pos(), ok, why)
 	}
-	for name := range callerHolds {
+	// safe(M): M locks first, or M is unexported and every caller is safe
+	var safe func(name string, depth int) (bool, string)
+	safe = func(name string, depth int) (bool, string) {
+		if locks[name] {
+			return true, why[name]
+		}
+		f := isMethod[name]
+		if f == nil {
+			return false, name + " is not a cacheStore method and does not hold mtx"
+		}
+		if f.Obj.Exported() || depth <= 0 {
+			return false, why[name]
+		}
 		callers := engine.CallerSet(p.RefsToFunc(name))
-		var bad []string
+		if len(callers) == 0 {
+			return false, "unexported, never called, does not lock"
+		}
 		for _, cl := range callers {
-			if !locking[cl] && !callerHolds[cl] {
-				bad = append(bad, cl)
+			if cl == name {
+				continue
+			}
+			if ok, w := safe(cl, depth-1); !ok {
+				return false, "called without the lock from " + cl + " (" + w + ")"
 			}
 		}
+		return true, "caller-holds-lock helper: every caller holds mtx"
+	}
+	n := 0
+	for _, f := range methods {
+		if !touches[f.Name] || exempt[f.Name] != "" {
+			continue
+		}
+		ok, w := safe(f.Name, 4)
 		n++
-		c.Check("holds-lock", name+" callers hold mtx", token.NoPos, len(bad) == 0 && len(callers) > 0, "callers without the lock: "+join(bad))
+		c.Check("holds-lock", f.Name, f.Pos(), ok, w)
 	}
 	c.Floor("holds-lock", n, 12)
+}
+
+// ---- mem iterator ----
+
+func c22Mem(c *engine.Ctx, p *engine.Prog) {
+	const MI = c22Cache + ".(*memIterator)."
+	n := 0
+	ascF := p.Field(c22Cache + ".memIterator.ascending")
+	itemsF := p.Field(c22Cache + ".memIterator.items")
+	for _, name := range []string{"Key", "Value", "Next"} {
+		f := c.MustFunc(MI + name)
+		if f == nil {
+			continue
+		}
+		info := f.Info()
+		root := sfRoot(f)
+		isAsc := func(cx *sfCtx, e ast.Expr) bool { return sfFieldSel(cx.fn.Info(), e, ascF) }
+		isLenM1 := func(e ast.Expr) bool {
+			return sfDerives(f, e, func(x ast.Expr) bool {
+				b, ok := ast.Unparen(x).(*ast.BinaryExpr)
+				if !ok || b.Op != token.SUB {
+					return false
+				}
+				if k, isK := sfConstInt(info, b.Y); !isK || k != 1 {
+					return false
+				}
+				cl, ok := ast.Unparen(b.X).(*ast.CallExpr)
+				return ok && engine.IsBuiltinCall(info, cl, "len") && sfFieldSel(info, cl.Args[0], itemsF)
+			}, 2)
+		}
+		isConst := func(e ast.Expr, k int64) bool {
+			v, ok := sfConstInt(info, e)
+			return ok && v == k
+		}
+		front, back := 0, 0
+		engine.InspectBody(f, func(x ast.Node) {
+			var st *engine.Site
+			var isFront, isBack bool
+			switch e := x.(type) {
+			case *ast.IndexExpr:
+				if !sfFieldSel(info, e.X, itemsF) {
+					return
+				}
+				isFront, isBack = isConst(e.Index, 0), isLenM1(e.Index)
+				st = f.SiteOf(e)
+			case *ast.SliceExpr:
+				if !sfFieldSel(info, e.X, itemsF) {
+					return
+				}
+				isFront = e.Low != nil && isConst(e.Low, 1) && e.High == nil
+				isBack = (e.Low == nil || isConst(e.Low, 0)) && e.High != nil && isLenM1(e.High)
+				st = f.SiteOf(e)
+			default:
+				return
+			}
+			if st == nil {
+				return
+			}
+			facts := sfFactsAt(root, st)
+			asc, desc := sfKnown(facts, true, isAsc), sfKnown(facts, false, isAsc)
+			ok := asc != desc && ((asc && isFront) || (desc && isBack))
+			if asc {
+				front++
+			} else {
+				back++
+			}
+			n++
+			c.Check("mem-end", MI+name+" ascending="+c22Bool(asc), st.Pos(), ok,
+				"ascending consumes the front of the sorted slice, descending the back")
+		})
+		c.Check("mem-end", MI+name+" has both directions", f.Pos(), front >= 1 && back >= 1, "")
+		n++
+	}
+	if f := c.MustFunc(c22Cache + ".newMemIterator"); f != nil {
+		k := 0
+		for _, d := range sfDeepCallsTo(f, 2, "builtin.append") {
+			k++
+			inDom := sfKnown(d.facts(), true, func(cx *sfCtx, e ast.Expr) bool {
+				cl, ok := sfIsCallTo(cx.fn.Info(), e, "tm2/pkg/db.IsKeyInDomain")
+				return ok && len(cl.Args) == 3 && sfRootParam(cx, cl.Args[1]) == 0 && sfRootParam(cx, cl.Args[2]) == 1
+			})
+			n++
+			c.Check("mem-end", c22Cache+".newMemIterator keeps exactly the items in [start,end)", d.where(), inDom, "append must be gated by IsKeyInDomain(item.Key, start, end)")
+		}
+		if k == 0 {
+			c.Undecided("mem-end", c22Cache+".newMemIterator", "no append of in-domain items found")
+		}
+	}
+	c.Floor("mem-end", n, 10)
 }
 
 // ---- prefix store ----
@@ -944,49 +1437,38 @@ func c22PrefixRules(c *engine.Ctx, p *engine.Prog) {
 	const PS = c22Prefix + ".(Store)."
 	parentF := p.Field(c22Prefix + ".Store.parent")
 	prefixF := p.Field(c22Prefix + ".Store.prefix")
+	stopCA := func(cx *sfCtx, cl *ast.CallExpr) bool {
+		nm := sfCallee(cx.fn.Info(), cl)
+		return nm == c22Prefix+".cloneAppend" || nm == c22Prefix+".cpIncr" || nm == "tm2/pkg/store/types.PrefixEndBytes"
+	}
+	// prefixed(l, i): the value is cloneAppend(<prefix field>, <root parameter i>)
+	prefixed := func(l sfLeaf, i int) bool {
+		if l.e == nil {
+			return false
+		}
+		cl, ok := sfIsCallTo(l.ctx.fn.Info(), l.e, c22Prefix+".cloneAppend")
+		return ok && len(cl.Args) == 2 && sfFieldSel(l.ctx.fn.Info(), cl.Args[0], prefixF) && sfRootParam(l.ctx, cl.Args[1]) == i
+	}
 	n := 0
 	for _, name := range []string{"Get", "Has", "Set", "Delete"} {
 		f := c.MustFunc(PS + name)
 		if f == nil {
 			continue
 		}
-		info := f.Info()
 		cnt := 0
-		for _, s := range f.Calls() {
-			fld, m := sfMethodOnField(info, s.Call)
-			if fld != parentF || parentF == nil {
-				continue
-			}
+		for _, d := range sfDeepFieldCalls(f, 2, parentF) {
+			_, m := sfMethodOnField(d.info(), d.site.Call)
 			cnt++
-			ok := m == name && len(s.Call.Args) >= 2
-			if ok {
-				cl, isC := sfIsCallTo(info, s.Call.Args[1], PS+"key")
-				ok = isC && len(cl.Args) == 1 && sfIsParam(f, cl.Args[0], 1)
-			}
+			a := d.site.Call.Args
+			ok := m == name && len(a) >= 2 && sfAllLeafs(sfLeafs(d.ctx, a[1], d.site, 4, stopCA), func(l sfLeaf) bool { return prefixed(l, 1) })
 			if ok && name == "Set" {
-				ok = len(s.Call.Args) == 3 && sfIsParam(f, s.Call.Args[2], 2)
+				ok = len(a) == 3 && d.rootParam(2) == 2
 			}
 			n++
-			c.Check("prefix-key", PS+name+" -> parent."+m, s.Pos(), ok, "the parent must be called with the same operation and the key s.key(key) (prefix prepended)")
+			c.Check("prefix-key", PS+name+" -> parent."+m, d.where(), ok, "the parent must be called with the same operation and the key prefix++key")
 		}
 		c.Check("prefix-key", PS+name+" calls the parent once", f.Pos(), cnt == 1, "")
 		n++
-	}
-	if f := c.MustFunc(PS + "key"); f != nil {
-		info := f.Info()
-		ok := false
-		for _, s := range f.CallsTo(c22Prefix + ".cloneAppend") {
-			if len(s.Call.Args) == 2 && sfFieldSel(info, s.Call.Args[0], prefixF) && sfIsParam(f, s.Call.Args[1], 0) {
-				if as, isAs := s.Top.(*ast.AssignStmt); isAs && engine.ObjOf(info, as.Lhs[0]) == sfNamedResult(f, 0) {
-					ok = true
-				}
-				if _, isR := s.Top.(*ast.ReturnStmt); isR {
-					ok = true
-				}
-			}
-		}
-		n++
-		c.Check("prefix-key", PS+"key = prefix ++ key", f.Pos(), ok, "key() must return cloneAppend(s.prefix, key)")
 	}
 	if f := c.MustFunc(c22Prefix + ".cloneAppend"); f != nil {
 		info := f.Info()
@@ -994,10 +1476,14 @@ func c22PrefixRules(c *engine.Ctx, p *engine.Prog) {
 		head, tail := false, false
 		for _, s := range f.CallsTo("builtin.copy") {
 			a := s.Call.Args
-			if engine.ObjOf(info, a[0]) == res && res != nil && sfIsParam(f, a[1], 0) {
+			dst := engine.ObjOf(info, a[0])
+			if dst != nil && sfIsParam(f, a[1], 0) {
 				head = true
+				if res == nil {
+					res = dst
+				}
 			}
-			if sl, isS := ast.Unparen(a[0]).(*ast.SliceExpr); isS && engine.ObjOf(info, sl.X) == res && sl.High == nil && sl.Low != nil && engine.IsLenOf(info, sl.Low, paramObj(f, 0)) && sfIsParam(f, a[1], 1) {
+			if sl, isS := ast.Unparen(a[0]).(*ast.SliceExpr); isS && engine.ObjOf(info, sl.X) != nil && sl.High == nil && sl.Low != nil && engine.IsLenOf(info, sl.Low, paramObj(f, 0)) && sfIsParam(f, a[1], 1) {
 				tail = true
 			}
 		}
@@ -1010,88 +1496,85 @@ func c22PrefixRules(c *engine.Ctx, p *engine.Prog) {
 		if f == nil {
 			continue
 		}
-		info := f.Info()
-		var pc *engine.Site
-		cnt := 0
-		for _, s := range f.Calls() {
-			if fld, _ := sfMethodOnField(info, s.Call); fld == parentF && parentF != nil {
-				pc = s
-				cnt++
-			}
-		}
-		if cnt != 1 {
+		pcs := sfDeepFieldCalls(f, 2, parentF)
+		if len(pcs) != 1 {
 			c.Undecided("prefix-range", PS+name, "expected exactly one parent call")
 			continue
 		}
-		_, mth := sfMethodOnField(info, pc.Call)
-		a := pc.Call.Args
-		isStart := func(e ast.Expr) bool {
-			cl, ok := sfIsCallTo(info, e, c22Prefix+".cloneAppend")
-			return ok && sfFieldSel(info, cl.Args[0], prefixF) && sfIsParam(f, cl.Args[1], 1)
-		}
-		okDir := mth == name && len(a) == 3 && sfIsParam(f, a[0], 0)
+		pc := pcs[0]
+		_, mth := sfMethodOnField(pc.info(), pc.site.Call)
+		a := pc.site.Call.Args
 		m++
-		c.Check("prefix-range", PS+name+" uses parent."+name, pc.Pos(), okDir, "direction must be preserved")
+		c.Check("prefix-range", PS+name+" uses parent."+name, pc.where(), mth == name && len(a) == 3 && pc.rootParam(0) == 0, "direction must be preserved")
 		m++
-		c.Check("prefix-range", PS+name+" start = prefix ++ start", pc.Pos(), len(a) == 3 && sfDerives(f, a[1], isStart, 2), "")
-		// end: two defs, gated by end == nil
-		okEnd := false
-		if id, isId := ast.Unparen(a[2]).(*ast.Ident); isId && len(a) == 3 {
-			obj := info.ObjectOf(id)
-			nilDef, nonNilDef, other := 0, 0, 0
-			engine.InspectBody(f, func(x ast.Node) {
-				as, isAs := x.(*ast.AssignStmt)
-				if !isAs || len(as.Lhs) != 1 || engine.ObjOf(info, as.Lhs[0]) != obj {
-					return
+		c.Check("prefix-range", PS+name+" start = prefix ++ start", pc.where(),
+			len(a) == 3 && sfAllLeafs(sfLeafs(pc.ctx, a[1], pc.site, 5, stopCA), func(l sfLeaf) bool { return prefixed(l, 1) }), "")
+		// end: cpIncr(prefix) exactly when end == nil, prefix++end otherwise
+		okEnd := len(a) == 3
+		nilDef, nonNilDef := 0, 0
+		if okEnd {
+			endNil := func(op token.Token) func(*sfCtx, ast.Expr) bool {
+				return func(cx *sfCtx, e ast.Expr) bool {
+					x, y, o, isC := sfCmp(e)
+					return isC && o == op && isNil(y) && sfRootParam(cx, x) == 2
 				}
-				st := f.SiteOf(as)
-				if st == nil {
-					other++
-					return
-				}
-				endNil := func(e ast.Expr) bool {
-					x, y, op, isC := sfCmp(e)
-					return isC && op == token.EQL && isNil(y) && sfIsParam(f, x, 2)
-				}
-				endNotNil := func(e ast.Expr) bool {
-					x, y, op, isC := sfCmp(e)
-					return isC && op == token.NEQ && isNil(y) && sfIsParam(f, x, 2)
-				}
-				if cl, isC := sfIsCallTo(info, as.Rhs[0], c22Prefix+".cpIncr"); isC && sfFieldSel(info, cl.Args[0], prefixF) &&
-					(sfHolds(f, st, true, endNil) || sfHolds(f, st, false, endNotNil)) {
-					nilDef++
-				} else if cl, isC := sfIsCallTo(info, as.Rhs[0], c22Prefix+".cloneAppend"); isC && sfFieldSel(info, cl.Args[0], prefixF) && sfIsParam(f, cl.Args[1], 2) &&
-					(sfHolds(f, st, false, endNil) || sfHolds(f, st, true, endNotNil)) {
+			}
+			base := pc.facts()
+			for _, l := range sfLeafs(pc.ctx, a[2], pc.site, 5, stopCA) {
+				facts := append(append([]sfFact{}, base...), l.facts...)
+				isNilEnd := sfKnown(facts, true, endNil(token.EQL)) || sfKnown(facts, false, endNil(token.NEQ))
+				notNilEnd := sfKnown(facts, false, endNil(token.EQL)) || sfKnown(facts, true, endNil(token.NEQ))
+				switch {
+				case l.e == nil:
+					okEnd = false
+				case prefixed(l, 2) && notNilEnd && !isNilEnd:
 					nonNilDef++
-				} else {
-					other++
-				}
-			})
-			okEnd = nilDef == 1 && nonNilDef == 1 && other == 0
-		}
-		m++
-		c.Check("prefix-range", PS+name+" end = cpIncr(prefix) | prefix ++ end", pc.Pos(), okEnd, "an open end must become the end of the prefix range, a given end must be prefixed")
-		// result wraps with newPrefixIterator(s.prefix, start, end, iter)
-		okWrap := false
-		for _, s := range f.CallsTo(c22Prefix + ".newPrefixIterator") {
-			b := s.Call.Args
-			fromParent := func(e ast.Expr) bool { return ast.Unparen(e) == ast.Expr(pc.Call) }
-			if len(b) == 4 && sfFieldSel(info, b[0], prefixF) && sfIsParam(f, b[1], 1) && sfIsParam(f, b[2], 2) && sfDerives(f, b[3], fromParent, 2) {
-				if _, isR := s.Top.(*ast.ReturnStmt); isR {
-					okWrap = true
+				default:
+					cl, isC := sfIsCallTo(l.ctx.fn.Info(), l.e, c22Prefix+".cpIncr", "tm2/pkg/store/types.PrefixEndBytes")
+					if isC && sfFieldSel(l.ctx.fn.Info(), cl.Args[0], prefixF) && isNilEnd && !notNilEnd {
+						nilDef++
+					} else {
+						okEnd = false
+					}
 				}
 			}
 		}
 		m++
-		c.Check("prefix-range", PS+name+" returns a prefix-stripping iterator", f.Pos(), okWrap, "")
+		c.Check("prefix-range", PS+name+" end = cpIncr(prefix) | prefix ++ end", pc.where(), okEnd && nilDef >= 1 && nonNilDef >= 1, "an open end must become the end of the prefix range, a given end must be prefixed")
+		// result wraps with newPrefixIterator(s.prefix, start, end, iter)
+		okWrap := false
+		for _, d := range sfDeepCallsTo(f, 2, c22Prefix+".newPrefixIterator") {
+			b := d.site.Call.Args
+			if len(b) == 4 && sfFieldSel(d.info(), b[0], prefixF) && d.rootParam(1) == 1 && d.rootParam(2) == 2 &&
+				sfAllLeafs(sfLeafs(d.ctx, b[3], d.site, 4, func(cx *sfCtx, cl *ast.CallExpr) bool { return true }), func(l sfLeaf) bool { return l.e != nil && ast.Unparen(l.e) == ast.Expr(pc.site.Call) }) {
+				okWrap = true
+			}
+		}
+		// … and that wrapper is what is returned
+		retOK := false
+		for _, r := range sfReturns(f) {
+			if len(r.Results) == 1 {
+				retOK = sfAllLeafs(sfLeafs(sfRoot(f), r.Results[0], f.SiteOf(r), 4, func(cx *sfCtx, cl *ast.CallExpr) bool {
+					return sfCallee(cx.fn.Info(), cl) == c22Prefix+".newPrefixIterator"
+				}), func(l sfLeaf) bool {
+					if l.e == nil {
+						return false
+					}
+					_, isC := sfIsCallTo(l.ctx.fn.Info(), l.e, c22Prefix+".newPrefixIterator")
+					return isC
+				})
+			}
+		}
+		m++
+		c.Check("prefix-range", PS+name+" returns a prefix-stripping iterator", f.Pos(), okWrap && retOK, "")
 	}
-	if f := c.MustFunc(c22Prefix + ".cpIncr"); f != nil {
+	if f := p.Func(c22Prefix + ".cpIncr"); f != nil {
 		cl := f.CallsTo("tm2/pkg/store/types.PrefixEndBytes")
 		m++
 		c.Check("prefix-range", c22Prefix+".cpIncr = PrefixEndBytes", f.Pos(), len(cl) == 1 && sfIsParam(f, cl[0].Call.Args[0], 0), "")
 	}
-	c.Floor("prefix-key", n, 10)
-	c.Floor("prefix-range", m, 9)
+	c.Floor("prefix-key", n, 9)
+	c.Floor("prefix-range", m, 8)
 
 	// stripping
 	k := 0
@@ -1100,37 +1583,33 @@ func c22PrefixRules(c *engine.Ctx, p *engine.Prog) {
 	pfxF := p.Field(c22Prefix + ".prefixIterator.prefix")
 	validF := p.Field(c22Prefix + ".prefixIterator.valid")
 	if f := c.MustFunc(PI + "Key"); f != nil {
-		info := f.Info()
-		ok := false
-		for _, s := range f.CallsTo(c22Prefix + ".stripPrefix") {
-			a := s.Call.Args
-			fromIter := func(e ast.Expr) bool {
-				cl, isC := ast.Unparen(e).(*ast.CallExpr)
-				if !isC {
+		root := sfRoot(f)
+		stopSP := func(cx *sfCtx, cl *ast.CallExpr) bool { return sfCallee(cx.fn.Info(), cl) == c22Prefix+".stripPrefix" }
+		ok, rets := true, 0
+		for _, r := range sfReturns(f) {
+			st := f.SiteOf(r)
+			var leaves []sfLeaf
+			if len(r.Results) == 1 {
+				leaves = sfLeafs(root, r.Results[0], st, 4, stopSP)
+			} else if nr := sfNamedResult(f, 0); nr != nil {
+				sfLeafsVar(root, nr, st, 4, stopSP, nil, &leaves)
+			}
+			rets++
+			if !sfAllLeafs(leaves, func(l sfLeaf) bool {
+				if l.e == nil {
 					return false
 				}
-				fld, mm := sfMethodOnField(info, cl)
-				return fld == iterF && mm == "Key"
-			}
-			// the key variable may be re-assigned from stripPrefix(key, …): accept the named result whose first def is iter.Key()
-			d := sfDerives(f, a[0], fromIter, 2)
-			if !d {
-				if id, isId := ast.Unparen(a[0]).(*ast.Ident); isId {
-					defs, _ := sfDefs(f, info.ObjectOf(id))
-					for _, df := range defs {
-						if fromIter(df) {
-							d = true
-						}
-					}
+				cl, isC := sfIsCallTo(l.ctx.fn.Info(), l.e, c22Prefix+".stripPrefix")
+				if !isC || len(cl.Args) != 2 || !sfFieldSel(l.ctx.fn.Info(), cl.Args[1], pfxF) {
+					return false
 				}
-			}
-			if len(a) == 2 && d && sfFieldSel(info, a[1], pfxF) {
-				ok = true
+				return sfAllLeafs(sfLeafs(l.ctx, cl.Args[0], l.ctx.fn.SiteOf(cl), 4, stopSP), func(k sfLeaf) bool { return k.e != nil && sfFieldCallIs(k.ctx, k.e, iterF, "Key") })
+			}) {
+				ok = false
 			}
 		}
-		// every return value must come from stripPrefix
 		k++
-		c.Check("prefix-strip", PI+"Key strips the prefix", f.Pos(), ok, "Key() must return stripPrefix(iter.iter.Key(), iter.prefix)")
+		c.Check("prefix-strip", PI+"Key strips the prefix", f.Pos(), ok && rets >= 1, "Key() must return stripPrefix(iter.iter.Key(), iter.prefix)")
 	}
 	if f := c.MustFunc(c22Prefix + ".stripPrefix"); f != nil {
 		info := f.Info()
@@ -1145,13 +1624,13 @@ func c22PrefixRules(c *engine.Ctx, p *engine.Prog) {
 		k++
 		c.Check("prefix-strip", c22Prefix+".stripPrefix returns key[len(prefix):]", f.Pos(), ok, "")
 	}
-	hasPrefixOf := func(f *engine.Fn, e ast.Expr) bool {
-		info := f.Info()
-		cl, ok := sfIsCallTo(info, e, "bytes.HasPrefix")
+	hasPrefix := func(cx *sfCtx, e ast.Expr) bool {
+		cl, ok := sfIsCallTo(cx.fn.Info(), e, "bytes.HasPrefix")
 		return ok && len(cl.Args) == 2
 	}
 	if f := c.MustFunc(PI + "Next"); f != nil {
 		info := f.Info()
+		root := sfRoot(f)
 		ok := false
 		engine.InspectBody(f, func(x ast.Node) {
 			as, isAs := x.(*ast.AssignStmt)
@@ -1162,43 +1641,63 @@ func c22PrefixRules(c *engine.Ctx, p *engine.Prog) {
 			if st == nil {
 				return
 			}
-			if id, isId := as.Rhs[0].(*ast.Ident); !isId || id.Name != "false" {
-				return
-			}
-			// reached when !HasPrefix(...) (true branch of an || containing it)
-			for _, g := range f.Graph().Gates(st) {
-				if !g.OnTrue {
-					continue
-				}
-				for _, dj := range engine.Conjuncts(g.Cond, token.LOR) {
-					if u, isU := ast.Unparen(dj).(*ast.UnaryExpr); isU && u.Op == token.NOT && hasPrefixOf(f, u.X) {
+			if v, isC := sfConstBool(info, as.Rhs[0]); isC && !v {
+				// invalidated on a path where "has the prefix" is not known true, and that path exists for !HasPrefix
+				for _, ft := range sfFactsAt(root, st) {
+					b, isB := ast.Unparen(ft.e).(*ast.BinaryExpr)
+					if ft.val && isB && b.Op == token.LOR {
+						for _, dj := range engine.Conjuncts(b, token.LOR) {
+							if u, isU := ast.Unparen(dj).(*ast.UnaryExpr); isU && u.Op == token.NOT && hasPrefix(ft.ctx, u.X) {
+								ok = true
+							}
+						}
+					}
+					if !ft.val && hasPrefix(ft.ctx, ft.e) {
 						ok = true
 					}
 				}
+			} else if sfAllLeafs(sfLeafs(root, as.Rhs[0], st, 3, nil), func(l sfLeaf) bool {
+				if l.e == nil {
+					return false
+				}
+				for _, cj := range engine.Conjuncts(l.e, token.LAND) {
+					if hasPrefix(l.ctx, cj) {
+						return true
+					}
+				}
+				return false
+			}) {
+				ok = true // valid = iter.Valid() && HasPrefix(…)
 			}
 		})
-		nx := 0
-		for _, s := range f.Calls() {
-			if fld, mm := sfMethodOnField(info, s.Call); fld == iterF && mm == "Next" {
-				nx++
-			}
-		}
+		nx := len(sfDeepFieldCalls(f, 2, iterF, "Next"))
 		k++
 		c.Check("prefix-strip", PI+"Next invalidates on leaving the prefix", f.Pos(), ok && nx == 1, "after advancing, a key without the prefix must end the iteration")
 	}
 	if f := c.MustFunc(c22Prefix + ".newPrefixIterator"); f != nil {
 		ok := false
+		root := sfRoot(f)
 		ast.Inspect(f.Body, func(x ast.Node) bool {
 			kv, isKV := x.(*ast.KeyValueExpr)
 			if !isKV {
 				return true
 			}
-			if id, isId := kv.Key.(*ast.Ident); isId && id.Name == "valid" {
-				for _, cj := range engine.Conjuncts(kv.Value, token.LAND) {
-					if hasPrefixOf(f, cj) {
-						ok = true
+			if id, isId := kv.Key.(*ast.Ident); isId && f.Info().Uses[id] == types.Object(validF) {
+				ok = sfAllLeafs(sfLeafs(root, kv.Value, f.SiteOf(kv), 3, nil), func(l sfLeaf) bool {
+					if l.e == nil {
+						return false
 					}
-				}
+					for _, cj := range engine.Conjuncts(l.e, token.LAND) {
+						if hasPrefix(l.ctx, cj) {
+							return true
+						}
+					}
+					// literal true/false chosen under a HasPrefix test
+					if v, isC := sfConstBool(l.ctx.fn.Info(), l.e); isC {
+						return !v || sfKnown(sfFactsAt(root, f.SiteOf(kv)), true, hasPrefix)
+					}
+					return false
+				})
 			}
 			return true
 		})
@@ -1223,140 +1722,49 @@ func c22MultiRules(c *engine.Ctx, p *engine.Prog) {
 		if f == nil {
 			continue
 		}
-		info := f.Info()
-		calls := f.CallsTo(tc.callee)
-		ok := len(calls) == 1
-		if ok {
-			s := calls[0]
+		calls := sfDeepCallsTo(f, 2, tc.callee)
+		ok := len(calls) >= 1
+		for _, d := range calls {
 			inRange := false
-			engine.InspectBody(f, func(x ast.Node) {
-				if rs, isR := x.(*ast.RangeStmt); isR && sfFieldSel(info, rs.X, storesF) && sfWithin(rs.Body, s.Node) {
-					inRange = true
+			for x := d.ctx; x != nil; x = x.parent {
+				node := ast.Node(d.site.Node)
+				if x != d.ctx {
+					node = nil
 				}
-			})
-			ok = inRange && len(f.Graph().Gates(s)) == 0 && !s.Deferred
+				info := x.fn.Info()
+				engine.InspectBody(x.fn, func(y ast.Node) {
+					rs, isR := y.(*ast.RangeStmt)
+					if !isR || !sfFieldSel(info, rs.X, storesF) {
+						return
+					}
+					if node != nil && sfWithin(rs.Body, node) {
+						inRange = true
+					}
+					if node == nil {
+						// the helper is called from inside the range body of an enclosing context
+						for z := d.ctx; z.parent != nil; z = z.parent {
+							if z.parent == x && sfWithin(rs.Body, z.call) {
+								inRange = true
+							}
+						}
+					}
+				})
+			}
+			if !inRange || len(d.facts()) != 0 || d.outer().Deferred {
+				ok = false
+			}
 		}
 		n++
 		c.Check("multi-fanout", MS+tc.fn, f.Pos(), ok, "must call "+tc.callee+" on every sub-store, unconditionally")
 	}
 	if f := c.MustFunc(c22Multi + ".NewFromStores"); f != nil {
-		calls := f.CallsTo("tm2/pkg/store/types.(Store).CacheWrap")
-		ok := len(calls) == 1 && len(f.Graph().Gates(calls[0])) == 0
+		calls := sfDeepCallsTo(f, 2, "tm2/pkg/store/types.(Store).CacheWrap")
+		ok := len(calls) >= 1
+		for _, d := range calls {
+			ok = ok && len(d.facts()) == 0
+		}
 		n++
 		c.Check("multi-fanout", c22Multi+".NewFromStores cache-wraps every store", f.Pos(), ok, "")
 	}
 	c.Floor("multi-fanout", n, 4)
-}
-
-// ---- the cache entry each operation records ----
-
-func c22OpEntry(c *engine.Ctx, p *engine.Prog) {
-	n := 0
-	lit := func(e ast.Expr, name string) bool {
-		id, ok := ast.Unparen(e).(*ast.Ident)
-		return ok && id.Name == name
-	}
-	for _, tc := range []struct {
-		fn             string
-		valueParam     int // index of the value parameter, -1: nil, -2: fetched from the parent
-		deleted, dirty string
-	}{
-		{"Get", -2, "false", "false"},
-		{"Set", 2, "false", "true"},
-		{"Delete", -1, "true", "true"},
-	} {
-		f := c.MustFunc(c22CS + tc.fn)
-		if f == nil {
-			continue
-		}
-		info := f.Info()
-		ss := f.CallsTo(c22CS + "setCacheValue")
-		ok := len(ss) == 1
-		why := "expected exactly one setCacheValue call"
-		if ok {
-			a := ss[0].Call.Args
-			ok = len(a) == 4 && sfIsParam(f, a[0], 1) && lit(a[2], tc.deleted) && lit(a[3], tc.dirty)
-			why = "entry must be recorded as (key, value, deleted=" + tc.deleted + ", dirty=" + tc.dirty + ")"
-			switch {
-			case !ok:
-			case tc.valueParam >= 0:
-				ok = sfIsParam(f, a[1], tc.valueParam)
-			case tc.valueParam == -1:
-				ok = isNil(a[1])
-			default:
-				parentF := p.Field(c22Cache + ".cacheStore.parent")
-				fromParent := func(e ast.Expr) bool {
-					cl, isC := ast.Unparen(e).(*ast.CallExpr)
-					if !isC {
-						return false
-					}
-					fld, m := sfMethodOnField(info, cl)
-					return fld == parentF && m == "Get" && len(cl.Args) == 2 && sfIsParam(f, cl.Args[1], 1)
-				}
-				// every definition of the value that can reach the call is parent.Get(key)
-				vobj := engine.ObjOf(info, a[1])
-				reaching := 0
-				ok = vobj != nil
-				engine.InspectBody(f, func(x ast.Node) {
-					as, isAs := x.(*ast.AssignStmt)
-					if !isAs || len(as.Lhs) != 1 || engine.ObjOf(info, as.Lhs[0]) != vobj {
-						return
-					}
-					st := f.SiteOf(as)
-					if st == nil || !f.Graph().ReachableAfter(st, ss[0]) {
-						return
-					}
-					reaching++
-					if !fromParent(as.Rhs[0]) {
-						ok = false
-					}
-				})
-				ok = ok && reaching >= 1
-				why = "a read miss must cache exactly what parent.Get(key) returned, as a clean entry"
-			}
-		}
-		n++
-		c.Check("op-entry", c22CS+tc.fn, f.Pos(), ok, why)
-	}
-	// a cache hit answers from the entry
-	if f := c.MustFunc(c22CS + "Get"); f != nil {
-		info := f.Info()
-		valF := p.Field(c22Cache + ".cValue.value")
-		cacheF := p.Field(c22Cache + ".cacheStore.cache")
-		hit := false
-		engine.InspectBody(f, func(x ast.Node) {
-			as, ok := x.(*ast.AssignStmt)
-			if !ok || len(as.Lhs) != 1 || len(as.Rhs) != 1 || !sfFieldSel(info, as.Rhs[0], valF) {
-				return
-			}
-			if engine.ObjOf(info, as.Lhs[0]) != sfNamedResult(f, 0) {
-				return
-			}
-			st := f.SiteOf(as)
-			hit = st != nil && (sfHolds(f, st, true, func(e ast.Expr) bool { return c22IsMapOK(f, e, cacheF) }))
-		})
-		n++
-		c.Check("op-entry", c22CS+"Get answers a hit from the cached entry", f.Pos(), hit, "on a hit (comma-ok of store.cache[key]) the result is the entry's value (nil for a deleted key)")
-	}
-	c.Floor("op-entry", n, 4)
-}
-
-// c22IsMapOK: e is the comma-ok variable of an index into the given map field.
-func c22IsMapOK(f *engine.Fn, e ast.Expr, mapField *types.Var) bool {
-	id, ok := ast.Unparen(e).(*ast.Ident)
-	if !ok {
-		return false
-	}
-	obj := f.Info().ObjectOf(id)
-	found := false
-	engine.InspectBody(f, func(n ast.Node) {
-		as, ok := n.(*ast.AssignStmt)
-		if !ok || len(as.Lhs) != 2 || len(as.Rhs) != 1 || engine.ObjOf(f.Info(), as.Lhs[1]) != obj {
-			return
-		}
-		if ix, ok := ast.Unparen(as.Rhs[0]).(*ast.IndexExpr); ok && sfFieldSel(f.Info(), ix.X, mapField) {
-			found = true
-		}
-	})
-	return found
 }
